@@ -725,4 +725,758 @@ theorem removeVirtual_inv (a : Acc) (s : Nat) (r vkey : String) (hi : Inv a.h) :
             · exact f15 p k v' hv'
     · simp only [hk, ne_eq, not_false_eq_true, if_true]; exact hi
 
+/-! ### updates that keep the structure -/
+
+set_option maxHeartbeats 4000000 in
+theorem InvG.setSess_same {orph : List Nat} {h : Hub} (hi : InvX orph h) {s : Nat} {x y : Sess} (hx : h.sess s = some x)
+    (e1 : y.backend = x.backend) (e2 : y.kind = x.kind) (e3 : y.user = x.user) (e4 : y.room = x.room)
+    (e5 : y.conn = x.conn) (e6 : y.parent = x.parent) (e7 : y.vkey = x.vkey) (e8 : y.children = x.children) :
+    InvX orph (setSess h s (some y)) := by
+  constructor
+  case fresh =>
+    first
+      | (have f_fresh := hi.fresh; clear hi; (intros; (try simp only [hubf] at *); grind [mem_removeL, nodup_removeL, removeL_nil]))
+      | (have f_fresh := hi.fresh; have f_mem_room := hi.mem_room; have f_room_mem := hi.room_mem; have f_nonempty := hi.nonempty; have f_nodup := hi.nodup; have f_roomL_iff := hi.roomL_iff; have f_roomL_nodup := hi.roomL_nodup; have f_userL_iff := hi.userL_iff; have f_userL_nodup := hi.userL_nodup; have f_sessL_iff := hi.sessL_iff; have f_rs_fwd := hi.rs_fwd; have f_rs_room := hi.rs_room; have f_virt := hi.virt; have f_children := hi.children; have f_vtable := hi.vtable; have f_conn_iff := hi.conn_iff; have f_conn_open := hi.conn_open; have f_eh := hi.eh; have f_expired := hi.expired; have f_anon := hi.anon; have f_dialout := hi.dialout; have f_count := hi.count; have f_orph_virt := hi.orph_virt; clear hi; (intros; (try simp only [hubf] at *); grind [mem_removeL, nodup_removeL, removeL_nil]))
+  case mem_room =>
+    first
+      | (have f_mem_room := hi.mem_room; have f_fresh := hi.fresh; clear hi; (intros; (try simp only [hubf] at *); grind [mem_removeL, nodup_removeL, removeL_nil]))
+      | (have f_fresh := hi.fresh; have f_mem_room := hi.mem_room; have f_room_mem := hi.room_mem; have f_nonempty := hi.nonempty; have f_nodup := hi.nodup; have f_roomL_iff := hi.roomL_iff; have f_roomL_nodup := hi.roomL_nodup; have f_userL_iff := hi.userL_iff; have f_userL_nodup := hi.userL_nodup; have f_sessL_iff := hi.sessL_iff; have f_rs_fwd := hi.rs_fwd; have f_rs_room := hi.rs_room; have f_virt := hi.virt; have f_children := hi.children; have f_vtable := hi.vtable; have f_conn_iff := hi.conn_iff; have f_conn_open := hi.conn_open; have f_eh := hi.eh; have f_expired := hi.expired; have f_anon := hi.anon; have f_dialout := hi.dialout; have f_count := hi.count; have f_orph_virt := hi.orph_virt; clear hi; (intros; (try simp only [hubf] at *); grind [mem_removeL, nodup_removeL, removeL_nil]))
+  case room_mem =>
+    first
+      | (have f_room_mem := hi.room_mem; have f_mem_room := hi.mem_room; have f_fresh := hi.fresh; clear hi; (intros; (try simp only [hubf] at *); grind [mem_removeL, nodup_removeL, removeL_nil]))
+      | (have f_fresh := hi.fresh; have f_mem_room := hi.mem_room; have f_room_mem := hi.room_mem; have f_nonempty := hi.nonempty; have f_nodup := hi.nodup; have f_roomL_iff := hi.roomL_iff; have f_roomL_nodup := hi.roomL_nodup; have f_userL_iff := hi.userL_iff; have f_userL_nodup := hi.userL_nodup; have f_sessL_iff := hi.sessL_iff; have f_rs_fwd := hi.rs_fwd; have f_rs_room := hi.rs_room; have f_virt := hi.virt; have f_children := hi.children; have f_vtable := hi.vtable; have f_conn_iff := hi.conn_iff; have f_conn_open := hi.conn_open; have f_eh := hi.eh; have f_expired := hi.expired; have f_anon := hi.anon; have f_dialout := hi.dialout; have f_count := hi.count; have f_orph_virt := hi.orph_virt; clear hi; (intros; (try simp only [hubf] at *); grind [mem_removeL, nodup_removeL, removeL_nil]))
+  case nonempty =>
+    first
+      | (have f_nonempty := hi.nonempty; have f_mem_room := hi.mem_room; clear hi; (intros; (try simp only [hubf] at *); grind [mem_removeL, nodup_removeL, removeL_nil]))
+      | (have f_fresh := hi.fresh; have f_mem_room := hi.mem_room; have f_room_mem := hi.room_mem; have f_nonempty := hi.nonempty; have f_nodup := hi.nodup; have f_roomL_iff := hi.roomL_iff; have f_roomL_nodup := hi.roomL_nodup; have f_userL_iff := hi.userL_iff; have f_userL_nodup := hi.userL_nodup; have f_sessL_iff := hi.sessL_iff; have f_rs_fwd := hi.rs_fwd; have f_rs_room := hi.rs_room; have f_virt := hi.virt; have f_children := hi.children; have f_vtable := hi.vtable; have f_conn_iff := hi.conn_iff; have f_conn_open := hi.conn_open; have f_eh := hi.eh; have f_expired := hi.expired; have f_anon := hi.anon; have f_dialout := hi.dialout; have f_count := hi.count; have f_orph_virt := hi.orph_virt; clear hi; (intros; (try simp only [hubf] at *); grind [mem_removeL, nodup_removeL, removeL_nil]))
+  case nodup =>
+    first
+      | (have f_nodup := hi.nodup; clear hi; (intros; (try simp only [hubf] at *); grind [mem_removeL, nodup_removeL, removeL_nil]))
+      | (have f_fresh := hi.fresh; have f_mem_room := hi.mem_room; have f_room_mem := hi.room_mem; have f_nonempty := hi.nonempty; have f_nodup := hi.nodup; have f_roomL_iff := hi.roomL_iff; have f_roomL_nodup := hi.roomL_nodup; have f_userL_iff := hi.userL_iff; have f_userL_nodup := hi.userL_nodup; have f_sessL_iff := hi.sessL_iff; have f_rs_fwd := hi.rs_fwd; have f_rs_room := hi.rs_room; have f_virt := hi.virt; have f_children := hi.children; have f_vtable := hi.vtable; have f_conn_iff := hi.conn_iff; have f_conn_open := hi.conn_open; have f_eh := hi.eh; have f_expired := hi.expired; have f_anon := hi.anon; have f_dialout := hi.dialout; have f_count := hi.count; have f_orph_virt := hi.orph_virt; clear hi; (intros; (try simp only [hubf] at *); grind [mem_removeL, nodup_removeL, removeL_nil]))
+  case roomL_iff =>
+    first
+      | (have f_roomL_iff := hi.roomL_iff; have f_fresh := hi.fresh; have f_room_mem := hi.room_mem; have f_mem_room := hi.mem_room; clear hi; (intros; (try simp only [hubf] at *); grind [mem_removeL, nodup_removeL, removeL_nil]))
+      | (have f_fresh := hi.fresh; have f_mem_room := hi.mem_room; have f_room_mem := hi.room_mem; have f_nonempty := hi.nonempty; have f_nodup := hi.nodup; have f_roomL_iff := hi.roomL_iff; have f_roomL_nodup := hi.roomL_nodup; have f_userL_iff := hi.userL_iff; have f_userL_nodup := hi.userL_nodup; have f_sessL_iff := hi.sessL_iff; have f_rs_fwd := hi.rs_fwd; have f_rs_room := hi.rs_room; have f_virt := hi.virt; have f_children := hi.children; have f_vtable := hi.vtable; have f_conn_iff := hi.conn_iff; have f_conn_open := hi.conn_open; have f_eh := hi.eh; have f_expired := hi.expired; have f_anon := hi.anon; have f_dialout := hi.dialout; have f_count := hi.count; have f_orph_virt := hi.orph_virt; clear hi; (intros; (try simp only [hubf] at *); grind [mem_removeL, nodup_removeL, removeL_nil]))
+  case roomL_nodup =>
+    first
+      | (have f_roomL_nodup := hi.roomL_nodup; have f_roomL_iff := hi.roomL_iff; clear hi; (intros; (try simp only [hubf] at *); grind [mem_removeL, nodup_removeL, removeL_nil]))
+      | (have f_fresh := hi.fresh; have f_mem_room := hi.mem_room; have f_room_mem := hi.room_mem; have f_nonempty := hi.nonempty; have f_nodup := hi.nodup; have f_roomL_iff := hi.roomL_iff; have f_roomL_nodup := hi.roomL_nodup; have f_userL_iff := hi.userL_iff; have f_userL_nodup := hi.userL_nodup; have f_sessL_iff := hi.sessL_iff; have f_rs_fwd := hi.rs_fwd; have f_rs_room := hi.rs_room; have f_virt := hi.virt; have f_children := hi.children; have f_vtable := hi.vtable; have f_conn_iff := hi.conn_iff; have f_conn_open := hi.conn_open; have f_eh := hi.eh; have f_expired := hi.expired; have f_anon := hi.anon; have f_dialout := hi.dialout; have f_count := hi.count; have f_orph_virt := hi.orph_virt; clear hi; (intros; (try simp only [hubf] at *); grind [mem_removeL, nodup_removeL, removeL_nil]))
+  case userL_iff =>
+    first
+      | (have f_userL_iff := hi.userL_iff; have f_fresh := hi.fresh; clear hi; (intros; (try simp only [hubf] at *); grind [mem_removeL, nodup_removeL, removeL_nil]))
+      | (have f_fresh := hi.fresh; have f_mem_room := hi.mem_room; have f_room_mem := hi.room_mem; have f_nonempty := hi.nonempty; have f_nodup := hi.nodup; have f_roomL_iff := hi.roomL_iff; have f_roomL_nodup := hi.roomL_nodup; have f_userL_iff := hi.userL_iff; have f_userL_nodup := hi.userL_nodup; have f_sessL_iff := hi.sessL_iff; have f_rs_fwd := hi.rs_fwd; have f_rs_room := hi.rs_room; have f_virt := hi.virt; have f_children := hi.children; have f_vtable := hi.vtable; have f_conn_iff := hi.conn_iff; have f_conn_open := hi.conn_open; have f_eh := hi.eh; have f_expired := hi.expired; have f_anon := hi.anon; have f_dialout := hi.dialout; have f_count := hi.count; have f_orph_virt := hi.orph_virt; clear hi; (intros; (try simp only [hubf] at *); grind [mem_removeL, nodup_removeL, removeL_nil]))
+  case userL_nodup =>
+    first
+      | (have f_userL_nodup := hi.userL_nodup; have f_userL_iff := hi.userL_iff; clear hi; (intros; (try simp only [hubf] at *); grind [mem_removeL, nodup_removeL, removeL_nil]))
+      | (have f_fresh := hi.fresh; have f_mem_room := hi.mem_room; have f_room_mem := hi.room_mem; have f_nonempty := hi.nonempty; have f_nodup := hi.nodup; have f_roomL_iff := hi.roomL_iff; have f_roomL_nodup := hi.roomL_nodup; have f_userL_iff := hi.userL_iff; have f_userL_nodup := hi.userL_nodup; have f_sessL_iff := hi.sessL_iff; have f_rs_fwd := hi.rs_fwd; have f_rs_room := hi.rs_room; have f_virt := hi.virt; have f_children := hi.children; have f_vtable := hi.vtable; have f_conn_iff := hi.conn_iff; have f_conn_open := hi.conn_open; have f_eh := hi.eh; have f_expired := hi.expired; have f_anon := hi.anon; have f_dialout := hi.dialout; have f_count := hi.count; have f_orph_virt := hi.orph_virt; clear hi; (intros; (try simp only [hubf] at *); grind [mem_removeL, nodup_removeL, removeL_nil]))
+  case sessL_iff =>
+    first
+      | (have f_sessL_iff := hi.sessL_iff; have f_fresh := hi.fresh; clear hi; (intros; (try simp only [hubf] at *); grind [mem_removeL, nodup_removeL, removeL_nil]))
+      | (have f_fresh := hi.fresh; have f_mem_room := hi.mem_room; have f_room_mem := hi.room_mem; have f_nonempty := hi.nonempty; have f_nodup := hi.nodup; have f_roomL_iff := hi.roomL_iff; have f_roomL_nodup := hi.roomL_nodup; have f_userL_iff := hi.userL_iff; have f_userL_nodup := hi.userL_nodup; have f_sessL_iff := hi.sessL_iff; have f_rs_fwd := hi.rs_fwd; have f_rs_room := hi.rs_room; have f_virt := hi.virt; have f_children := hi.children; have f_vtable := hi.vtable; have f_conn_iff := hi.conn_iff; have f_conn_open := hi.conn_open; have f_eh := hi.eh; have f_expired := hi.expired; have f_anon := hi.anon; have f_dialout := hi.dialout; have f_count := hi.count; have f_orph_virt := hi.orph_virt; clear hi; (intros; (try simp only [hubf] at *); grind [mem_removeL, nodup_removeL, removeL_nil]))
+  case rs_fwd =>
+    first
+      | (have f_rs_fwd := hi.rs_fwd; have f_rs_room := hi.rs_room; have f_fresh := hi.fresh; clear hi; (intros; (try simp only [hubf] at *); grind [mem_removeL, nodup_removeL, removeL_nil]))
+      | (have f_fresh := hi.fresh; have f_mem_room := hi.mem_room; have f_room_mem := hi.room_mem; have f_nonempty := hi.nonempty; have f_nodup := hi.nodup; have f_roomL_iff := hi.roomL_iff; have f_roomL_nodup := hi.roomL_nodup; have f_userL_iff := hi.userL_iff; have f_userL_nodup := hi.userL_nodup; have f_sessL_iff := hi.sessL_iff; have f_rs_fwd := hi.rs_fwd; have f_rs_room := hi.rs_room; have f_virt := hi.virt; have f_children := hi.children; have f_vtable := hi.vtable; have f_conn_iff := hi.conn_iff; have f_conn_open := hi.conn_open; have f_eh := hi.eh; have f_expired := hi.expired; have f_anon := hi.anon; have f_dialout := hi.dialout; have f_count := hi.count; have f_orph_virt := hi.orph_virt; clear hi; (intros; (try simp only [hubf] at *); grind [mem_removeL, nodup_removeL, removeL_nil]))
+  case rs_room =>
+    first
+      | (have f_rs_room := hi.rs_room; have f_rs_fwd := hi.rs_fwd; have f_fresh := hi.fresh; have f_room_mem := hi.room_mem; clear hi; (intros; (try simp only [hubf] at *); grind [mem_removeL, nodup_removeL, removeL_nil]))
+      | (have f_fresh := hi.fresh; have f_mem_room := hi.mem_room; have f_room_mem := hi.room_mem; have f_nonempty := hi.nonempty; have f_nodup := hi.nodup; have f_roomL_iff := hi.roomL_iff; have f_roomL_nodup := hi.roomL_nodup; have f_userL_iff := hi.userL_iff; have f_userL_nodup := hi.userL_nodup; have f_sessL_iff := hi.sessL_iff; have f_rs_fwd := hi.rs_fwd; have f_rs_room := hi.rs_room; have f_virt := hi.virt; have f_children := hi.children; have f_vtable := hi.vtable; have f_conn_iff := hi.conn_iff; have f_conn_open := hi.conn_open; have f_eh := hi.eh; have f_expired := hi.expired; have f_anon := hi.anon; have f_dialout := hi.dialout; have f_count := hi.count; have f_orph_virt := hi.orph_virt; clear hi; (intros; (try simp only [hubf] at *); grind [mem_removeL, nodup_removeL, removeL_nil]))
+  case virt =>
+    first
+      | (have f_virt := hi.virt; have f_children := hi.children; have f_fresh := hi.fresh; clear hi; (intros; (try simp only [hubf] at *); grind [mem_removeL, nodup_removeL, removeL_nil]))
+      | (have f_fresh := hi.fresh; have f_mem_room := hi.mem_room; have f_room_mem := hi.room_mem; have f_nonempty := hi.nonempty; have f_nodup := hi.nodup; have f_roomL_iff := hi.roomL_iff; have f_roomL_nodup := hi.roomL_nodup; have f_userL_iff := hi.userL_iff; have f_userL_nodup := hi.userL_nodup; have f_sessL_iff := hi.sessL_iff; have f_rs_fwd := hi.rs_fwd; have f_rs_room := hi.rs_room; have f_virt := hi.virt; have f_children := hi.children; have f_vtable := hi.vtable; have f_conn_iff := hi.conn_iff; have f_conn_open := hi.conn_open; have f_eh := hi.eh; have f_expired := hi.expired; have f_anon := hi.anon; have f_dialout := hi.dialout; have f_count := hi.count; have f_orph_virt := hi.orph_virt; clear hi; (intros; (try simp only [hubf] at *); grind [mem_removeL, nodup_removeL, removeL_nil]))
+  case children =>
+    first
+      | (have f_children := hi.children; have f_virt := hi.virt; have f_fresh := hi.fresh; clear hi; (intros; (try simp only [hubf] at *); grind [mem_removeL, nodup_removeL, removeL_nil]))
+      | (have f_fresh := hi.fresh; have f_mem_room := hi.mem_room; have f_room_mem := hi.room_mem; have f_nonempty := hi.nonempty; have f_nodup := hi.nodup; have f_roomL_iff := hi.roomL_iff; have f_roomL_nodup := hi.roomL_nodup; have f_userL_iff := hi.userL_iff; have f_userL_nodup := hi.userL_nodup; have f_sessL_iff := hi.sessL_iff; have f_rs_fwd := hi.rs_fwd; have f_rs_room := hi.rs_room; have f_virt := hi.virt; have f_children := hi.children; have f_vtable := hi.vtable; have f_conn_iff := hi.conn_iff; have f_conn_open := hi.conn_open; have f_eh := hi.eh; have f_expired := hi.expired; have f_anon := hi.anon; have f_dialout := hi.dialout; have f_count := hi.count; have f_orph_virt := hi.orph_virt; clear hi; (intros; (try simp only [hubf] at *); grind [mem_removeL, nodup_removeL, removeL_nil]))
+  case vtable =>
+    first
+      | (have f_vtable := hi.vtable; have f_virt := hi.virt; have f_fresh := hi.fresh; clear hi; (intros; (try simp only [hubf] at *); grind [mem_removeL, nodup_removeL, removeL_nil]))
+      | (have f_fresh := hi.fresh; have f_mem_room := hi.mem_room; have f_room_mem := hi.room_mem; have f_nonempty := hi.nonempty; have f_nodup := hi.nodup; have f_roomL_iff := hi.roomL_iff; have f_roomL_nodup := hi.roomL_nodup; have f_userL_iff := hi.userL_iff; have f_userL_nodup := hi.userL_nodup; have f_sessL_iff := hi.sessL_iff; have f_rs_fwd := hi.rs_fwd; have f_rs_room := hi.rs_room; have f_virt := hi.virt; have f_children := hi.children; have f_vtable := hi.vtable; have f_conn_iff := hi.conn_iff; have f_conn_open := hi.conn_open; have f_eh := hi.eh; have f_expired := hi.expired; have f_anon := hi.anon; have f_dialout := hi.dialout; have f_count := hi.count; have f_orph_virt := hi.orph_virt; clear hi; (intros; (try simp only [hubf] at *); grind [mem_removeL, nodup_removeL, removeL_nil]))
+  case conn_iff =>
+    first
+      | (have f_conn_iff := hi.conn_iff; have f_fresh := hi.fresh; have f_virt := hi.virt; clear hi; (intros; (try simp only [hubf] at *); grind [mem_removeL, nodup_removeL, removeL_nil]))
+      | (have f_fresh := hi.fresh; have f_mem_room := hi.mem_room; have f_room_mem := hi.room_mem; have f_nonempty := hi.nonempty; have f_nodup := hi.nodup; have f_roomL_iff := hi.roomL_iff; have f_roomL_nodup := hi.roomL_nodup; have f_userL_iff := hi.userL_iff; have f_userL_nodup := hi.userL_nodup; have f_sessL_iff := hi.sessL_iff; have f_rs_fwd := hi.rs_fwd; have f_rs_room := hi.rs_room; have f_virt := hi.virt; have f_children := hi.children; have f_vtable := hi.vtable; have f_conn_iff := hi.conn_iff; have f_conn_open := hi.conn_open; have f_eh := hi.eh; have f_expired := hi.expired; have f_anon := hi.anon; have f_dialout := hi.dialout; have f_count := hi.count; have f_orph_virt := hi.orph_virt; clear hi; (intros; (try simp only [hubf] at *); grind [mem_removeL, nodup_removeL, removeL_nil]))
+  case conn_open =>
+    first
+      | (have f_conn_open := hi.conn_open; have f_conn_iff := hi.conn_iff; clear hi; (intros; (try simp only [hubf] at *); grind [mem_removeL, nodup_removeL, removeL_nil]))
+      | (have f_fresh := hi.fresh; have f_mem_room := hi.mem_room; have f_room_mem := hi.room_mem; have f_nonempty := hi.nonempty; have f_nodup := hi.nodup; have f_roomL_iff := hi.roomL_iff; have f_roomL_nodup := hi.roomL_nodup; have f_userL_iff := hi.userL_iff; have f_userL_nodup := hi.userL_nodup; have f_sessL_iff := hi.sessL_iff; have f_rs_fwd := hi.rs_fwd; have f_rs_room := hi.rs_room; have f_virt := hi.virt; have f_children := hi.children; have f_vtable := hi.vtable; have f_conn_iff := hi.conn_iff; have f_conn_open := hi.conn_open; have f_eh := hi.eh; have f_expired := hi.expired; have f_anon := hi.anon; have f_dialout := hi.dialout; have f_count := hi.count; have f_orph_virt := hi.orph_virt; clear hi; (intros; (try simp only [hubf] at *); grind [mem_removeL, nodup_removeL, removeL_nil]))
+  case eh =>
+    first
+      | (have f_eh := hi.eh; have f_conn_iff := hi.conn_iff; have f_conn_open := hi.conn_open; clear hi; (intros; (try simp only [hubf] at *); grind [mem_removeL, nodup_removeL, removeL_nil]))
+      | (have f_fresh := hi.fresh; have f_mem_room := hi.mem_room; have f_room_mem := hi.room_mem; have f_nonempty := hi.nonempty; have f_nodup := hi.nodup; have f_roomL_iff := hi.roomL_iff; have f_roomL_nodup := hi.roomL_nodup; have f_userL_iff := hi.userL_iff; have f_userL_nodup := hi.userL_nodup; have f_sessL_iff := hi.sessL_iff; have f_rs_fwd := hi.rs_fwd; have f_rs_room := hi.rs_room; have f_virt := hi.virt; have f_children := hi.children; have f_vtable := hi.vtable; have f_conn_iff := hi.conn_iff; have f_conn_open := hi.conn_open; have f_eh := hi.eh; have f_expired := hi.expired; have f_anon := hi.anon; have f_dialout := hi.dialout; have f_count := hi.count; have f_orph_virt := hi.orph_virt; clear hi; (intros; (try simp only [hubf] at *); grind [mem_removeL, nodup_removeL, removeL_nil]))
+  case expired =>
+    first
+      | (have f_expired := hi.expired; have f_fresh := hi.fresh; clear hi; (intros; (try simp only [hubf] at *); grind [mem_removeL, nodup_removeL, removeL_nil]))
+      | (have f_fresh := hi.fresh; have f_mem_room := hi.mem_room; have f_room_mem := hi.room_mem; have f_nonempty := hi.nonempty; have f_nodup := hi.nodup; have f_roomL_iff := hi.roomL_iff; have f_roomL_nodup := hi.roomL_nodup; have f_userL_iff := hi.userL_iff; have f_userL_nodup := hi.userL_nodup; have f_sessL_iff := hi.sessL_iff; have f_rs_fwd := hi.rs_fwd; have f_rs_room := hi.rs_room; have f_virt := hi.virt; have f_children := hi.children; have f_vtable := hi.vtable; have f_conn_iff := hi.conn_iff; have f_conn_open := hi.conn_open; have f_eh := hi.eh; have f_expired := hi.expired; have f_anon := hi.anon; have f_dialout := hi.dialout; have f_count := hi.count; have f_orph_virt := hi.orph_virt; clear hi; (intros; (try simp only [hubf] at *); grind [mem_removeL, nodup_removeL, removeL_nil]))
+  case anon =>
+    first
+      | (have f_anon := hi.anon; have f_fresh := hi.fresh; clear hi; (intros; (try simp only [hubf] at *); grind [mem_removeL, nodup_removeL, removeL_nil]))
+      | (have f_fresh := hi.fresh; have f_mem_room := hi.mem_room; have f_room_mem := hi.room_mem; have f_nonempty := hi.nonempty; have f_nodup := hi.nodup; have f_roomL_iff := hi.roomL_iff; have f_roomL_nodup := hi.roomL_nodup; have f_userL_iff := hi.userL_iff; have f_userL_nodup := hi.userL_nodup; have f_sessL_iff := hi.sessL_iff; have f_rs_fwd := hi.rs_fwd; have f_rs_room := hi.rs_room; have f_virt := hi.virt; have f_children := hi.children; have f_vtable := hi.vtable; have f_conn_iff := hi.conn_iff; have f_conn_open := hi.conn_open; have f_eh := hi.eh; have f_expired := hi.expired; have f_anon := hi.anon; have f_dialout := hi.dialout; have f_count := hi.count; have f_orph_virt := hi.orph_virt; clear hi; (intros; (try simp only [hubf] at *); grind [mem_removeL, nodup_removeL, removeL_nil]))
+  case dialout =>
+    first
+      | (have f_dialout := hi.dialout; have f_fresh := hi.fresh; clear hi; (intros; (try simp only [hubf] at *); grind [mem_removeL, nodup_removeL, removeL_nil]))
+      | (have f_fresh := hi.fresh; have f_mem_room := hi.mem_room; have f_room_mem := hi.room_mem; have f_nonempty := hi.nonempty; have f_nodup := hi.nodup; have f_roomL_iff := hi.roomL_iff; have f_roomL_nodup := hi.roomL_nodup; have f_userL_iff := hi.userL_iff; have f_userL_nodup := hi.userL_nodup; have f_sessL_iff := hi.sessL_iff; have f_rs_fwd := hi.rs_fwd; have f_rs_room := hi.rs_room; have f_virt := hi.virt; have f_children := hi.children; have f_vtable := hi.vtable; have f_conn_iff := hi.conn_iff; have f_conn_open := hi.conn_open; have f_eh := hi.eh; have f_expired := hi.expired; have f_anon := hi.anon; have f_dialout := hi.dialout; have f_count := hi.count; have f_orph_virt := hi.orph_virt; clear hi; (intros; (try simp only [hubf] at *); grind [mem_removeL, nodup_removeL, removeL_nil]))
+  case count =>
+    first
+      | (have f_count := hi.count; have f_fresh := hi.fresh; clear hi; (intros; (try simp only [hubf] at *); grind [mem_removeL, nodup_removeL, removeL_nil]))
+      | (have f_fresh := hi.fresh; have f_mem_room := hi.mem_room; have f_room_mem := hi.room_mem; have f_nonempty := hi.nonempty; have f_nodup := hi.nodup; have f_roomL_iff := hi.roomL_iff; have f_roomL_nodup := hi.roomL_nodup; have f_userL_iff := hi.userL_iff; have f_userL_nodup := hi.userL_nodup; have f_sessL_iff := hi.sessL_iff; have f_rs_fwd := hi.rs_fwd; have f_rs_room := hi.rs_room; have f_virt := hi.virt; have f_children := hi.children; have f_vtable := hi.vtable; have f_conn_iff := hi.conn_iff; have f_conn_open := hi.conn_open; have f_eh := hi.eh; have f_expired := hi.expired; have f_anon := hi.anon; have f_dialout := hi.dialout; have f_count := hi.count; have f_orph_virt := hi.orph_virt; clear hi; (intros; (try simp only [hubf] at *); grind [mem_removeL, nodup_removeL, removeL_nil]))
+  case orph_virt =>
+    first
+      | (have f_orph_virt := hi.orph_virt; have f_fresh := hi.fresh; have f_children := hi.children; have f_virt := hi.virt; clear hi; (intros; (try simp only [hubf] at *); grind [mem_removeL, nodup_removeL, removeL_nil]))
+      | (have f_fresh := hi.fresh; have f_mem_room := hi.mem_room; have f_room_mem := hi.room_mem; have f_nonempty := hi.nonempty; have f_nodup := hi.nodup; have f_roomL_iff := hi.roomL_iff; have f_roomL_nodup := hi.roomL_nodup; have f_userL_iff := hi.userL_iff; have f_userL_nodup := hi.userL_nodup; have f_sessL_iff := hi.sessL_iff; have f_rs_fwd := hi.rs_fwd; have f_rs_room := hi.rs_room; have f_virt := hi.virt; have f_children := hi.children; have f_vtable := hi.vtable; have f_conn_iff := hi.conn_iff; have f_conn_open := hi.conn_open; have f_eh := hi.eh; have f_expired := hi.expired; have f_anon := hi.anon; have f_dialout := hi.dialout; have f_count := hi.count; have f_orph_virt := hi.orph_virt; clear hi; (intros; (try simp only [hubf] at *); grind [mem_removeL, nodup_removeL, removeL_nil]))
+
+set_option maxHeartbeats 4000000 in
+theorem InvG.setRoom_same {orph : List Nat} {h : Hub} (hi : InvX orph h) {b : Nat} {r : String} {rm rm' : Room}
+    (hrm : h.rooms b r = some rm) (hm : rm'.members = rm.members) : InvX orph (setRoom h b r (some rm')) := by
+  constructor
+  case fresh =>
+    first
+      | (have f_fresh := hi.fresh; clear hi; (intros; (try simp only [hubf] at *); grind [mem_removeL, nodup_removeL, removeL_nil]))
+      | (have f_fresh := hi.fresh; have f_mem_room := hi.mem_room; have f_room_mem := hi.room_mem; have f_nonempty := hi.nonempty; have f_nodup := hi.nodup; have f_roomL_iff := hi.roomL_iff; have f_roomL_nodup := hi.roomL_nodup; have f_userL_iff := hi.userL_iff; have f_userL_nodup := hi.userL_nodup; have f_sessL_iff := hi.sessL_iff; have f_rs_fwd := hi.rs_fwd; have f_rs_room := hi.rs_room; have f_virt := hi.virt; have f_children := hi.children; have f_vtable := hi.vtable; have f_conn_iff := hi.conn_iff; have f_conn_open := hi.conn_open; have f_eh := hi.eh; have f_expired := hi.expired; have f_anon := hi.anon; have f_dialout := hi.dialout; have f_count := hi.count; have f_orph_virt := hi.orph_virt; clear hi; (intros; (try simp only [hubf] at *); grind [mem_removeL, nodup_removeL, removeL_nil]))
+  case mem_room =>
+    first
+      | (have f_mem_room := hi.mem_room; have f_fresh := hi.fresh; clear hi; (intros; (try simp only [hubf] at *); grind [mem_removeL, nodup_removeL, removeL_nil]))
+      | (have f_fresh := hi.fresh; have f_mem_room := hi.mem_room; have f_room_mem := hi.room_mem; have f_nonempty := hi.nonempty; have f_nodup := hi.nodup; have f_roomL_iff := hi.roomL_iff; have f_roomL_nodup := hi.roomL_nodup; have f_userL_iff := hi.userL_iff; have f_userL_nodup := hi.userL_nodup; have f_sessL_iff := hi.sessL_iff; have f_rs_fwd := hi.rs_fwd; have f_rs_room := hi.rs_room; have f_virt := hi.virt; have f_children := hi.children; have f_vtable := hi.vtable; have f_conn_iff := hi.conn_iff; have f_conn_open := hi.conn_open; have f_eh := hi.eh; have f_expired := hi.expired; have f_anon := hi.anon; have f_dialout := hi.dialout; have f_count := hi.count; have f_orph_virt := hi.orph_virt; clear hi; (intros; (try simp only [hubf] at *); grind [mem_removeL, nodup_removeL, removeL_nil]))
+  case room_mem =>
+    first
+      | (have f_room_mem := hi.room_mem; have f_mem_room := hi.mem_room; have f_fresh := hi.fresh; clear hi; (intros; (try simp only [hubf] at *); grind [mem_removeL, nodup_removeL, removeL_nil]))
+      | (have f_fresh := hi.fresh; have f_mem_room := hi.mem_room; have f_room_mem := hi.room_mem; have f_nonempty := hi.nonempty; have f_nodup := hi.nodup; have f_roomL_iff := hi.roomL_iff; have f_roomL_nodup := hi.roomL_nodup; have f_userL_iff := hi.userL_iff; have f_userL_nodup := hi.userL_nodup; have f_sessL_iff := hi.sessL_iff; have f_rs_fwd := hi.rs_fwd; have f_rs_room := hi.rs_room; have f_virt := hi.virt; have f_children := hi.children; have f_vtable := hi.vtable; have f_conn_iff := hi.conn_iff; have f_conn_open := hi.conn_open; have f_eh := hi.eh; have f_expired := hi.expired; have f_anon := hi.anon; have f_dialout := hi.dialout; have f_count := hi.count; have f_orph_virt := hi.orph_virt; clear hi; (intros; (try simp only [hubf] at *); grind [mem_removeL, nodup_removeL, removeL_nil]))
+  case nonempty =>
+    first
+      | (have f_nonempty := hi.nonempty; have f_mem_room := hi.mem_room; clear hi; (intros; (try simp only [hubf] at *); grind [mem_removeL, nodup_removeL, removeL_nil]))
+      | (have f_fresh := hi.fresh; have f_mem_room := hi.mem_room; have f_room_mem := hi.room_mem; have f_nonempty := hi.nonempty; have f_nodup := hi.nodup; have f_roomL_iff := hi.roomL_iff; have f_roomL_nodup := hi.roomL_nodup; have f_userL_iff := hi.userL_iff; have f_userL_nodup := hi.userL_nodup; have f_sessL_iff := hi.sessL_iff; have f_rs_fwd := hi.rs_fwd; have f_rs_room := hi.rs_room; have f_virt := hi.virt; have f_children := hi.children; have f_vtable := hi.vtable; have f_conn_iff := hi.conn_iff; have f_conn_open := hi.conn_open; have f_eh := hi.eh; have f_expired := hi.expired; have f_anon := hi.anon; have f_dialout := hi.dialout; have f_count := hi.count; have f_orph_virt := hi.orph_virt; clear hi; (intros; (try simp only [hubf] at *); grind [mem_removeL, nodup_removeL, removeL_nil]))
+  case nodup =>
+    first
+      | (have f_nodup := hi.nodup; clear hi; (intros; (try simp only [hubf] at *); grind [mem_removeL, nodup_removeL, removeL_nil]))
+      | (have f_fresh := hi.fresh; have f_mem_room := hi.mem_room; have f_room_mem := hi.room_mem; have f_nonempty := hi.nonempty; have f_nodup := hi.nodup; have f_roomL_iff := hi.roomL_iff; have f_roomL_nodup := hi.roomL_nodup; have f_userL_iff := hi.userL_iff; have f_userL_nodup := hi.userL_nodup; have f_sessL_iff := hi.sessL_iff; have f_rs_fwd := hi.rs_fwd; have f_rs_room := hi.rs_room; have f_virt := hi.virt; have f_children := hi.children; have f_vtable := hi.vtable; have f_conn_iff := hi.conn_iff; have f_conn_open := hi.conn_open; have f_eh := hi.eh; have f_expired := hi.expired; have f_anon := hi.anon; have f_dialout := hi.dialout; have f_count := hi.count; have f_orph_virt := hi.orph_virt; clear hi; (intros; (try simp only [hubf] at *); grind [mem_removeL, nodup_removeL, removeL_nil]))
+  case roomL_iff =>
+    first
+      | (have f_roomL_iff := hi.roomL_iff; have f_fresh := hi.fresh; have f_room_mem := hi.room_mem; have f_mem_room := hi.mem_room; clear hi; (intros; (try simp only [hubf] at *); grind [mem_removeL, nodup_removeL, removeL_nil]))
+      | (have f_fresh := hi.fresh; have f_mem_room := hi.mem_room; have f_room_mem := hi.room_mem; have f_nonempty := hi.nonempty; have f_nodup := hi.nodup; have f_roomL_iff := hi.roomL_iff; have f_roomL_nodup := hi.roomL_nodup; have f_userL_iff := hi.userL_iff; have f_userL_nodup := hi.userL_nodup; have f_sessL_iff := hi.sessL_iff; have f_rs_fwd := hi.rs_fwd; have f_rs_room := hi.rs_room; have f_virt := hi.virt; have f_children := hi.children; have f_vtable := hi.vtable; have f_conn_iff := hi.conn_iff; have f_conn_open := hi.conn_open; have f_eh := hi.eh; have f_expired := hi.expired; have f_anon := hi.anon; have f_dialout := hi.dialout; have f_count := hi.count; have f_orph_virt := hi.orph_virt; clear hi; (intros; (try simp only [hubf] at *); grind [mem_removeL, nodup_removeL, removeL_nil]))
+  case roomL_nodup =>
+    first
+      | (have f_roomL_nodup := hi.roomL_nodup; have f_roomL_iff := hi.roomL_iff; clear hi; (intros; (try simp only [hubf] at *); grind [mem_removeL, nodup_removeL, removeL_nil]))
+      | (have f_fresh := hi.fresh; have f_mem_room := hi.mem_room; have f_room_mem := hi.room_mem; have f_nonempty := hi.nonempty; have f_nodup := hi.nodup; have f_roomL_iff := hi.roomL_iff; have f_roomL_nodup := hi.roomL_nodup; have f_userL_iff := hi.userL_iff; have f_userL_nodup := hi.userL_nodup; have f_sessL_iff := hi.sessL_iff; have f_rs_fwd := hi.rs_fwd; have f_rs_room := hi.rs_room; have f_virt := hi.virt; have f_children := hi.children; have f_vtable := hi.vtable; have f_conn_iff := hi.conn_iff; have f_conn_open := hi.conn_open; have f_eh := hi.eh; have f_expired := hi.expired; have f_anon := hi.anon; have f_dialout := hi.dialout; have f_count := hi.count; have f_orph_virt := hi.orph_virt; clear hi; (intros; (try simp only [hubf] at *); grind [mem_removeL, nodup_removeL, removeL_nil]))
+  case userL_iff =>
+    first
+      | (have f_userL_iff := hi.userL_iff; have f_fresh := hi.fresh; clear hi; (intros; (try simp only [hubf] at *); grind [mem_removeL, nodup_removeL, removeL_nil]))
+      | (have f_fresh := hi.fresh; have f_mem_room := hi.mem_room; have f_room_mem := hi.room_mem; have f_nonempty := hi.nonempty; have f_nodup := hi.nodup; have f_roomL_iff := hi.roomL_iff; have f_roomL_nodup := hi.roomL_nodup; have f_userL_iff := hi.userL_iff; have f_userL_nodup := hi.userL_nodup; have f_sessL_iff := hi.sessL_iff; have f_rs_fwd := hi.rs_fwd; have f_rs_room := hi.rs_room; have f_virt := hi.virt; have f_children := hi.children; have f_vtable := hi.vtable; have f_conn_iff := hi.conn_iff; have f_conn_open := hi.conn_open; have f_eh := hi.eh; have f_expired := hi.expired; have f_anon := hi.anon; have f_dialout := hi.dialout; have f_count := hi.count; have f_orph_virt := hi.orph_virt; clear hi; (intros; (try simp only [hubf] at *); grind [mem_removeL, nodup_removeL, removeL_nil]))
+  case userL_nodup =>
+    first
+      | (have f_userL_nodup := hi.userL_nodup; have f_userL_iff := hi.userL_iff; clear hi; (intros; (try simp only [hubf] at *); grind [mem_removeL, nodup_removeL, removeL_nil]))
+      | (have f_fresh := hi.fresh; have f_mem_room := hi.mem_room; have f_room_mem := hi.room_mem; have f_nonempty := hi.nonempty; have f_nodup := hi.nodup; have f_roomL_iff := hi.roomL_iff; have f_roomL_nodup := hi.roomL_nodup; have f_userL_iff := hi.userL_iff; have f_userL_nodup := hi.userL_nodup; have f_sessL_iff := hi.sessL_iff; have f_rs_fwd := hi.rs_fwd; have f_rs_room := hi.rs_room; have f_virt := hi.virt; have f_children := hi.children; have f_vtable := hi.vtable; have f_conn_iff := hi.conn_iff; have f_conn_open := hi.conn_open; have f_eh := hi.eh; have f_expired := hi.expired; have f_anon := hi.anon; have f_dialout := hi.dialout; have f_count := hi.count; have f_orph_virt := hi.orph_virt; clear hi; (intros; (try simp only [hubf] at *); grind [mem_removeL, nodup_removeL, removeL_nil]))
+  case sessL_iff =>
+    first
+      | (have f_sessL_iff := hi.sessL_iff; have f_fresh := hi.fresh; clear hi; (intros; (try simp only [hubf] at *); grind [mem_removeL, nodup_removeL, removeL_nil]))
+      | (have f_fresh := hi.fresh; have f_mem_room := hi.mem_room; have f_room_mem := hi.room_mem; have f_nonempty := hi.nonempty; have f_nodup := hi.nodup; have f_roomL_iff := hi.roomL_iff; have f_roomL_nodup := hi.roomL_nodup; have f_userL_iff := hi.userL_iff; have f_userL_nodup := hi.userL_nodup; have f_sessL_iff := hi.sessL_iff; have f_rs_fwd := hi.rs_fwd; have f_rs_room := hi.rs_room; have f_virt := hi.virt; have f_children := hi.children; have f_vtable := hi.vtable; have f_conn_iff := hi.conn_iff; have f_conn_open := hi.conn_open; have f_eh := hi.eh; have f_expired := hi.expired; have f_anon := hi.anon; have f_dialout := hi.dialout; have f_count := hi.count; have f_orph_virt := hi.orph_virt; clear hi; (intros; (try simp only [hubf] at *); grind [mem_removeL, nodup_removeL, removeL_nil]))
+  case rs_fwd =>
+    first
+      | (have f_rs_fwd := hi.rs_fwd; have f_rs_room := hi.rs_room; have f_fresh := hi.fresh; clear hi; (intros; (try simp only [hubf] at *); grind [mem_removeL, nodup_removeL, removeL_nil]))
+      | (have f_fresh := hi.fresh; have f_mem_room := hi.mem_room; have f_room_mem := hi.room_mem; have f_nonempty := hi.nonempty; have f_nodup := hi.nodup; have f_roomL_iff := hi.roomL_iff; have f_roomL_nodup := hi.roomL_nodup; have f_userL_iff := hi.userL_iff; have f_userL_nodup := hi.userL_nodup; have f_sessL_iff := hi.sessL_iff; have f_rs_fwd := hi.rs_fwd; have f_rs_room := hi.rs_room; have f_virt := hi.virt; have f_children := hi.children; have f_vtable := hi.vtable; have f_conn_iff := hi.conn_iff; have f_conn_open := hi.conn_open; have f_eh := hi.eh; have f_expired := hi.expired; have f_anon := hi.anon; have f_dialout := hi.dialout; have f_count := hi.count; have f_orph_virt := hi.orph_virt; clear hi; (intros; (try simp only [hubf] at *); grind [mem_removeL, nodup_removeL, removeL_nil]))
+  case rs_room =>
+    first
+      | (have f_rs_room := hi.rs_room; have f_rs_fwd := hi.rs_fwd; have f_fresh := hi.fresh; have f_room_mem := hi.room_mem; clear hi; (intros; (try simp only [hubf] at *); grind [mem_removeL, nodup_removeL, removeL_nil]))
+      | (have f_fresh := hi.fresh; have f_mem_room := hi.mem_room; have f_room_mem := hi.room_mem; have f_nonempty := hi.nonempty; have f_nodup := hi.nodup; have f_roomL_iff := hi.roomL_iff; have f_roomL_nodup := hi.roomL_nodup; have f_userL_iff := hi.userL_iff; have f_userL_nodup := hi.userL_nodup; have f_sessL_iff := hi.sessL_iff; have f_rs_fwd := hi.rs_fwd; have f_rs_room := hi.rs_room; have f_virt := hi.virt; have f_children := hi.children; have f_vtable := hi.vtable; have f_conn_iff := hi.conn_iff; have f_conn_open := hi.conn_open; have f_eh := hi.eh; have f_expired := hi.expired; have f_anon := hi.anon; have f_dialout := hi.dialout; have f_count := hi.count; have f_orph_virt := hi.orph_virt; clear hi; (intros; (try simp only [hubf] at *); grind [mem_removeL, nodup_removeL, removeL_nil]))
+  case virt =>
+    first
+      | (have f_virt := hi.virt; have f_children := hi.children; have f_fresh := hi.fresh; clear hi; (intros; (try simp only [hubf] at *); grind [mem_removeL, nodup_removeL, removeL_nil]))
+      | (have f_fresh := hi.fresh; have f_mem_room := hi.mem_room; have f_room_mem := hi.room_mem; have f_nonempty := hi.nonempty; have f_nodup := hi.nodup; have f_roomL_iff := hi.roomL_iff; have f_roomL_nodup := hi.roomL_nodup; have f_userL_iff := hi.userL_iff; have f_userL_nodup := hi.userL_nodup; have f_sessL_iff := hi.sessL_iff; have f_rs_fwd := hi.rs_fwd; have f_rs_room := hi.rs_room; have f_virt := hi.virt; have f_children := hi.children; have f_vtable := hi.vtable; have f_conn_iff := hi.conn_iff; have f_conn_open := hi.conn_open; have f_eh := hi.eh; have f_expired := hi.expired; have f_anon := hi.anon; have f_dialout := hi.dialout; have f_count := hi.count; have f_orph_virt := hi.orph_virt; clear hi; (intros; (try simp only [hubf] at *); grind [mem_removeL, nodup_removeL, removeL_nil]))
+  case children =>
+    first
+      | (have f_children := hi.children; have f_virt := hi.virt; have f_fresh := hi.fresh; clear hi; (intros; (try simp only [hubf] at *); grind [mem_removeL, nodup_removeL, removeL_nil]))
+      | (have f_fresh := hi.fresh; have f_mem_room := hi.mem_room; have f_room_mem := hi.room_mem; have f_nonempty := hi.nonempty; have f_nodup := hi.nodup; have f_roomL_iff := hi.roomL_iff; have f_roomL_nodup := hi.roomL_nodup; have f_userL_iff := hi.userL_iff; have f_userL_nodup := hi.userL_nodup; have f_sessL_iff := hi.sessL_iff; have f_rs_fwd := hi.rs_fwd; have f_rs_room := hi.rs_room; have f_virt := hi.virt; have f_children := hi.children; have f_vtable := hi.vtable; have f_conn_iff := hi.conn_iff; have f_conn_open := hi.conn_open; have f_eh := hi.eh; have f_expired := hi.expired; have f_anon := hi.anon; have f_dialout := hi.dialout; have f_count := hi.count; have f_orph_virt := hi.orph_virt; clear hi; (intros; (try simp only [hubf] at *); grind [mem_removeL, nodup_removeL, removeL_nil]))
+  case vtable =>
+    first
+      | (have f_vtable := hi.vtable; have f_virt := hi.virt; have f_fresh := hi.fresh; clear hi; (intros; (try simp only [hubf] at *); grind [mem_removeL, nodup_removeL, removeL_nil]))
+      | (have f_fresh := hi.fresh; have f_mem_room := hi.mem_room; have f_room_mem := hi.room_mem; have f_nonempty := hi.nonempty; have f_nodup := hi.nodup; have f_roomL_iff := hi.roomL_iff; have f_roomL_nodup := hi.roomL_nodup; have f_userL_iff := hi.userL_iff; have f_userL_nodup := hi.userL_nodup; have f_sessL_iff := hi.sessL_iff; have f_rs_fwd := hi.rs_fwd; have f_rs_room := hi.rs_room; have f_virt := hi.virt; have f_children := hi.children; have f_vtable := hi.vtable; have f_conn_iff := hi.conn_iff; have f_conn_open := hi.conn_open; have f_eh := hi.eh; have f_expired := hi.expired; have f_anon := hi.anon; have f_dialout := hi.dialout; have f_count := hi.count; have f_orph_virt := hi.orph_virt; clear hi; (intros; (try simp only [hubf] at *); grind [mem_removeL, nodup_removeL, removeL_nil]))
+  case conn_iff =>
+    first
+      | (have f_conn_iff := hi.conn_iff; have f_fresh := hi.fresh; have f_virt := hi.virt; clear hi; (intros; (try simp only [hubf] at *); grind [mem_removeL, nodup_removeL, removeL_nil]))
+      | (have f_fresh := hi.fresh; have f_mem_room := hi.mem_room; have f_room_mem := hi.room_mem; have f_nonempty := hi.nonempty; have f_nodup := hi.nodup; have f_roomL_iff := hi.roomL_iff; have f_roomL_nodup := hi.roomL_nodup; have f_userL_iff := hi.userL_iff; have f_userL_nodup := hi.userL_nodup; have f_sessL_iff := hi.sessL_iff; have f_rs_fwd := hi.rs_fwd; have f_rs_room := hi.rs_room; have f_virt := hi.virt; have f_children := hi.children; have f_vtable := hi.vtable; have f_conn_iff := hi.conn_iff; have f_conn_open := hi.conn_open; have f_eh := hi.eh; have f_expired := hi.expired; have f_anon := hi.anon; have f_dialout := hi.dialout; have f_count := hi.count; have f_orph_virt := hi.orph_virt; clear hi; (intros; (try simp only [hubf] at *); grind [mem_removeL, nodup_removeL, removeL_nil]))
+  case conn_open =>
+    first
+      | (have f_conn_open := hi.conn_open; have f_conn_iff := hi.conn_iff; clear hi; (intros; (try simp only [hubf] at *); grind [mem_removeL, nodup_removeL, removeL_nil]))
+      | (have f_fresh := hi.fresh; have f_mem_room := hi.mem_room; have f_room_mem := hi.room_mem; have f_nonempty := hi.nonempty; have f_nodup := hi.nodup; have f_roomL_iff := hi.roomL_iff; have f_roomL_nodup := hi.roomL_nodup; have f_userL_iff := hi.userL_iff; have f_userL_nodup := hi.userL_nodup; have f_sessL_iff := hi.sessL_iff; have f_rs_fwd := hi.rs_fwd; have f_rs_room := hi.rs_room; have f_virt := hi.virt; have f_children := hi.children; have f_vtable := hi.vtable; have f_conn_iff := hi.conn_iff; have f_conn_open := hi.conn_open; have f_eh := hi.eh; have f_expired := hi.expired; have f_anon := hi.anon; have f_dialout := hi.dialout; have f_count := hi.count; have f_orph_virt := hi.orph_virt; clear hi; (intros; (try simp only [hubf] at *); grind [mem_removeL, nodup_removeL, removeL_nil]))
+  case eh =>
+    first
+      | (have f_eh := hi.eh; have f_conn_iff := hi.conn_iff; have f_conn_open := hi.conn_open; clear hi; (intros; (try simp only [hubf] at *); grind [mem_removeL, nodup_removeL, removeL_nil]))
+      | (have f_fresh := hi.fresh; have f_mem_room := hi.mem_room; have f_room_mem := hi.room_mem; have f_nonempty := hi.nonempty; have f_nodup := hi.nodup; have f_roomL_iff := hi.roomL_iff; have f_roomL_nodup := hi.roomL_nodup; have f_userL_iff := hi.userL_iff; have f_userL_nodup := hi.userL_nodup; have f_sessL_iff := hi.sessL_iff; have f_rs_fwd := hi.rs_fwd; have f_rs_room := hi.rs_room; have f_virt := hi.virt; have f_children := hi.children; have f_vtable := hi.vtable; have f_conn_iff := hi.conn_iff; have f_conn_open := hi.conn_open; have f_eh := hi.eh; have f_expired := hi.expired; have f_anon := hi.anon; have f_dialout := hi.dialout; have f_count := hi.count; have f_orph_virt := hi.orph_virt; clear hi; (intros; (try simp only [hubf] at *); grind [mem_removeL, nodup_removeL, removeL_nil]))
+  case expired =>
+    first
+      | (have f_expired := hi.expired; have f_fresh := hi.fresh; clear hi; (intros; (try simp only [hubf] at *); grind [mem_removeL, nodup_removeL, removeL_nil]))
+      | (have f_fresh := hi.fresh; have f_mem_room := hi.mem_room; have f_room_mem := hi.room_mem; have f_nonempty := hi.nonempty; have f_nodup := hi.nodup; have f_roomL_iff := hi.roomL_iff; have f_roomL_nodup := hi.roomL_nodup; have f_userL_iff := hi.userL_iff; have f_userL_nodup := hi.userL_nodup; have f_sessL_iff := hi.sessL_iff; have f_rs_fwd := hi.rs_fwd; have f_rs_room := hi.rs_room; have f_virt := hi.virt; have f_children := hi.children; have f_vtable := hi.vtable; have f_conn_iff := hi.conn_iff; have f_conn_open := hi.conn_open; have f_eh := hi.eh; have f_expired := hi.expired; have f_anon := hi.anon; have f_dialout := hi.dialout; have f_count := hi.count; have f_orph_virt := hi.orph_virt; clear hi; (intros; (try simp only [hubf] at *); grind [mem_removeL, nodup_removeL, removeL_nil]))
+  case anon =>
+    first
+      | (have f_anon := hi.anon; have f_fresh := hi.fresh; clear hi; (intros; (try simp only [hubf] at *); grind [mem_removeL, nodup_removeL, removeL_nil]))
+      | (have f_fresh := hi.fresh; have f_mem_room := hi.mem_room; have f_room_mem := hi.room_mem; have f_nonempty := hi.nonempty; have f_nodup := hi.nodup; have f_roomL_iff := hi.roomL_iff; have f_roomL_nodup := hi.roomL_nodup; have f_userL_iff := hi.userL_iff; have f_userL_nodup := hi.userL_nodup; have f_sessL_iff := hi.sessL_iff; have f_rs_fwd := hi.rs_fwd; have f_rs_room := hi.rs_room; have f_virt := hi.virt; have f_children := hi.children; have f_vtable := hi.vtable; have f_conn_iff := hi.conn_iff; have f_conn_open := hi.conn_open; have f_eh := hi.eh; have f_expired := hi.expired; have f_anon := hi.anon; have f_dialout := hi.dialout; have f_count := hi.count; have f_orph_virt := hi.orph_virt; clear hi; (intros; (try simp only [hubf] at *); grind [mem_removeL, nodup_removeL, removeL_nil]))
+  case dialout =>
+    first
+      | (have f_dialout := hi.dialout; have f_fresh := hi.fresh; clear hi; (intros; (try simp only [hubf] at *); grind [mem_removeL, nodup_removeL, removeL_nil]))
+      | (have f_fresh := hi.fresh; have f_mem_room := hi.mem_room; have f_room_mem := hi.room_mem; have f_nonempty := hi.nonempty; have f_nodup := hi.nodup; have f_roomL_iff := hi.roomL_iff; have f_roomL_nodup := hi.roomL_nodup; have f_userL_iff := hi.userL_iff; have f_userL_nodup := hi.userL_nodup; have f_sessL_iff := hi.sessL_iff; have f_rs_fwd := hi.rs_fwd; have f_rs_room := hi.rs_room; have f_virt := hi.virt; have f_children := hi.children; have f_vtable := hi.vtable; have f_conn_iff := hi.conn_iff; have f_conn_open := hi.conn_open; have f_eh := hi.eh; have f_expired := hi.expired; have f_anon := hi.anon; have f_dialout := hi.dialout; have f_count := hi.count; have f_orph_virt := hi.orph_virt; clear hi; (intros; (try simp only [hubf] at *); grind [mem_removeL, nodup_removeL, removeL_nil]))
+  case count =>
+    first
+      | (have f_count := hi.count; have f_fresh := hi.fresh; clear hi; (intros; (try simp only [hubf] at *); grind [mem_removeL, nodup_removeL, removeL_nil]))
+      | (have f_fresh := hi.fresh; have f_mem_room := hi.mem_room; have f_room_mem := hi.room_mem; have f_nonempty := hi.nonempty; have f_nodup := hi.nodup; have f_roomL_iff := hi.roomL_iff; have f_roomL_nodup := hi.roomL_nodup; have f_userL_iff := hi.userL_iff; have f_userL_nodup := hi.userL_nodup; have f_sessL_iff := hi.sessL_iff; have f_rs_fwd := hi.rs_fwd; have f_rs_room := hi.rs_room; have f_virt := hi.virt; have f_children := hi.children; have f_vtable := hi.vtable; have f_conn_iff := hi.conn_iff; have f_conn_open := hi.conn_open; have f_eh := hi.eh; have f_expired := hi.expired; have f_anon := hi.anon; have f_dialout := hi.dialout; have f_count := hi.count; have f_orph_virt := hi.orph_virt; clear hi; (intros; (try simp only [hubf] at *); grind [mem_removeL, nodup_removeL, removeL_nil]))
+  case orph_virt =>
+    first
+      | (have f_orph_virt := hi.orph_virt; have f_fresh := hi.fresh; have f_children := hi.children; have f_virt := hi.virt; clear hi; (intros; (try simp only [hubf] at *); grind [mem_removeL, nodup_removeL, removeL_nil]))
+      | (have f_fresh := hi.fresh; have f_mem_room := hi.mem_room; have f_room_mem := hi.room_mem; have f_nonempty := hi.nonempty; have f_nodup := hi.nodup; have f_roomL_iff := hi.roomL_iff; have f_roomL_nodup := hi.roomL_nodup; have f_userL_iff := hi.userL_iff; have f_userL_nodup := hi.userL_nodup; have f_sessL_iff := hi.sessL_iff; have f_rs_fwd := hi.rs_fwd; have f_rs_room := hi.rs_room; have f_virt := hi.virt; have f_children := hi.children; have f_vtable := hi.vtable; have f_conn_iff := hi.conn_iff; have f_conn_open := hi.conn_open; have f_eh := hi.eh; have f_expired := hi.expired; have f_anon := hi.anon; have f_dialout := hi.dialout; have f_count := hi.count; have f_orph_virt := hi.orph_virt; clear hi; (intros; (try simp only [hubf] at *); grind [mem_removeL, nodup_removeL, removeL_nil]))
+
+theorem roomInCallUpdate_inv (a : Acc) (b : Nat) (room : Option String) (s ic : Nat) (hi : Inv a.h) :
+    Inv (roomInCallUpdate a b room s ic).h := by
+  unfold roomInCallUpdate
+  cases room with
+  | none => exact hi
+  | some r =>
+    simp only []
+    cases hrm : a.h.rooms b r with
+    | none => exact hi
+    | some rm =>
+      simp only []
+      refine InvG.congr (coreOf (publishUsersChangedWithInternal_core _ _ _) rfl) ?_
+      apply hi.setRoom_same hrm
+      split <;> rfl
+
+theorem internalInCall_inv (a : Acc) (s : Nat) (ic : Nat) (hi : Inv a.h) : Inv (internalInCall a s ic).h := by
+  unfold internalInCall
+  cases hx : a.h.sess s with
+  | none => exact hi
+  | some x =>
+    simp only []
+    split
+    · exact hi
+    · split
+      · exact hi
+      · exact roomInCallUpdate_inv _ _ _ _ _ (hi.setSess_same hx rfl rfl rfl rfl rfl rfl rfl rfl)
+
+/-! ### room API -/
+
+theorem pubUsers_core (a : Acc) (b : Nat) (users : List String) (m : Msg) : CoreEq a.h (pubUsers a b users m).h :=
+  foldl_core _ (fun a u => pubUser_core a b u (.msg m)) _ _
+
+theorem sendToRs_core (b : Nat) (m : AMsg) (a : Acc) (rs : String) : CoreEq a.h (sendToRs b m a rs).h := by
+  unfold sendToRs; split
+  · exact procSession_core _ _ _
+  · exact CoreEq.refl _
+
+theorem sendAll_core (a : Acc) (ss : List Nat) (m : Msg) : CoreEq a.h (sendAll a ss m).h :=
+  foldl_core _ (fun a s => sendTo_core a s m) _ _
+
+theorem sendPerms_core (a : Acc) (e : Nat × Option (List String)) : CoreEq a.h (sendPerms a e).h := by
+  unfold sendPerms; split
+  · exact procSession_core _ _ _
+  · exact CoreEq.refl _
+
+theorem apiInvite_inv (a : Acc) (b : Nat) (r : String) (us all : List String) (hi : Inv a.h) :
+    Inv (apiInvite a b r us all).h :=
+  hi.congr ((pubUsers_core _ _ _ _).trans (pubUsers_core _ _ _ _))
+
+theorem apiDisinvite_inv (a : Acc) (b : Nat) (r : String) (us rss all : List String) (hi : Inv a.h) :
+    Inv (apiDisinvite a b r us rss all).h :=
+  hi.congr (((pubUsers_core _ _ _ _).trans (foldl_core _ (sendToRs_core b _) _ _)).trans (pubUsers_core _ _ _ _))
+
+theorem apiMessage_inv (a : Acc) (b : Nat) (r data : String) (hi : Inv a.h) : Inv (apiMessage a b r data).h := by
+  refine hi.congr ?_
+  unfold apiMessage
+  core_auto
+
+theorem apiSwitchto_inv (a : Acc) (b : Nat) (r room : String) (rss : List String) (hi : Inv a.h) :
+    Inv (apiSwitchto a b r room rss).h := by
+  refine hi.congr ?_
+  unfold apiSwitchto
+  simp only []
+  split
+  · exact CoreEq.refl _
+  · split
+    · exact CoreEq.refl _
+    · exact foldl_core _ (fun a s => procSession_core a s _) _ _
+
+theorem apiIncallAll_inv (a : Acc) (b : Nat) (r : String) (ic : Nat) (hi : Inv a.h) :
+    Inv (apiIncallAll a b r ic).h := by
+  unfold apiIncallAll
+  cases hrm : a.h.rooms b r with
+  | none => exact hi
+  | some rm =>
+    simp only []
+    split
+    · split
+      · exact hi
+      · exact InvG.congr (coreOf (sendAll_core _ _ _) rfl) (hi.setRoom_same hrm rfl)
+    · split
+      · exact InvG.congr (coreOf (sendAll_core _ _ _) rfl) (hi.setRoom_same hrm rfl)
+      · exact hi
+
+theorem apiIncall_inv (a : Acc) (b : Nat) (r : String) (ch us : List (String × Nat)) (hi : Inv a.h) :
+    Inv (apiIncall a b r ch us).h := by
+  unfold apiIncall
+  simp only []
+  split
+  · exact hi
+  · cases hrm : a.h.rooms b r with
+    | none => exact hi
+    | some rm =>
+      simp only []
+      exact InvG.congr (coreOf (pubRoom_core _ _ _ _) rfl) (hi.setRoom_same hrm rfl)
+
+theorem apiParticipants_inv (a : Acc) (b : Nat) (r : String) (ch : List (String × Option (List String)))
+    (us : List String) (hi : Inv a.h) : Inv (apiParticipants a b r ch us).h := by
+  refine hi.congr ?_
+  unfold apiParticipants
+  simp only []
+  split
+  · exact CoreEq.refl _
+  · have c1 := foldl_core sendPerms sendPerms_core
+      (ch.filterMap fun (rs, p) => (lookupRs a.h b rs).map fun s => (s, p)) a
+    split
+    · exact c1
+    · exact c1.trans (pubRoom_core _ _ _ _)
+
+/-! #### deleting a room -/
+
+/-- While room `(b, r)` is being deleted, the sessions in `ms` still name it as their room. -/
+def Rdel (b : Nat) (r : String) (ms : List Nat) : Nat → Sess → String → Prop :=
+  fun s x r' => x.backend = b ∧ r' = r ∧ s ∈ ms
+
+theorem InvG.weaken {R R' : Nat → Sess → String → Prop} {orph : List Nat} {h : Hub}
+    (hRR : ∀ s x r, R s x r → R' s x r) (hi : InvG R orph h) : InvG R' orph h := by
+  obtain ⟨f1, f2, f3, f4, f5, f6, f7, f8, f9, f10, f11, f12, f13, f14, f15, f16, f17, f18, f19, f20, f21, f22, f23⟩ := hi
+  constructor
+  all_goals first | assumption | skip
+  · intro s x r hx hr
+    rcases f3 s x r hx hr with h1 | h1
+    · exact Or.inl h1
+    · exact Or.inr (hRR s x r h1)
+
+set_option maxHeartbeats 4000000 in
+/-- `Room.Close()`: the room leaves the table while its members still point to it. -/
+theorem deleteStart_inv {h : Hub} (hi : Inv h) {b : Nat} {r : String} {rm : Room} (hrm : h.rooms b r = some rm) :
+    InvG (Rdel b r rm.members) [] (setRoom h b r none) := by
+  unfold Rdel
+  constructor
+  case fresh =>
+    first
+      | (have f_fresh := hi.fresh; clear hi; (intros; (try simp only [hubf] at *); grind [mem_removeL, nodup_removeL, removeL_nil]))
+      | (have f_fresh := hi.fresh; have f_mem_room := hi.mem_room; have f_room_mem := hi.room_mem; have f_nonempty := hi.nonempty; have f_nodup := hi.nodup; have f_roomL_iff := hi.roomL_iff; have f_roomL_nodup := hi.roomL_nodup; have f_userL_iff := hi.userL_iff; have f_userL_nodup := hi.userL_nodup; have f_sessL_iff := hi.sessL_iff; have f_rs_fwd := hi.rs_fwd; have f_rs_room := hi.rs_room; have f_virt := hi.virt; have f_children := hi.children; have f_vtable := hi.vtable; have f_conn_iff := hi.conn_iff; have f_conn_open := hi.conn_open; have f_eh := hi.eh; have f_expired := hi.expired; have f_anon := hi.anon; have f_dialout := hi.dialout; have f_count := hi.count; have f_orph_virt := hi.orph_virt; clear hi; (intros; (try simp only [hubf] at *); grind [mem_removeL, nodup_removeL, removeL_nil]))
+  case mem_room =>
+    first
+      | (have f_mem_room := hi.mem_room; have f_fresh := hi.fresh; clear hi; (intros; (try simp only [hubf] at *); grind [mem_removeL, nodup_removeL, removeL_nil]))
+      | (have f_fresh := hi.fresh; have f_mem_room := hi.mem_room; have f_room_mem := hi.room_mem; have f_nonempty := hi.nonempty; have f_nodup := hi.nodup; have f_roomL_iff := hi.roomL_iff; have f_roomL_nodup := hi.roomL_nodup; have f_userL_iff := hi.userL_iff; have f_userL_nodup := hi.userL_nodup; have f_sessL_iff := hi.sessL_iff; have f_rs_fwd := hi.rs_fwd; have f_rs_room := hi.rs_room; have f_virt := hi.virt; have f_children := hi.children; have f_vtable := hi.vtable; have f_conn_iff := hi.conn_iff; have f_conn_open := hi.conn_open; have f_eh := hi.eh; have f_expired := hi.expired; have f_anon := hi.anon; have f_dialout := hi.dialout; have f_count := hi.count; have f_orph_virt := hi.orph_virt; clear hi; (intros; (try simp only [hubf] at *); grind [mem_removeL, nodup_removeL, removeL_nil]))
+  case room_mem =>
+    first
+      | (have f_room_mem := hi.room_mem; have f_mem_room := hi.mem_room; have f_fresh := hi.fresh; clear hi; (intros; (try simp only [hubf] at *); grind [mem_removeL, nodup_removeL, removeL_nil]))
+      | (have f_fresh := hi.fresh; have f_mem_room := hi.mem_room; have f_room_mem := hi.room_mem; have f_nonempty := hi.nonempty; have f_nodup := hi.nodup; have f_roomL_iff := hi.roomL_iff; have f_roomL_nodup := hi.roomL_nodup; have f_userL_iff := hi.userL_iff; have f_userL_nodup := hi.userL_nodup; have f_sessL_iff := hi.sessL_iff; have f_rs_fwd := hi.rs_fwd; have f_rs_room := hi.rs_room; have f_virt := hi.virt; have f_children := hi.children; have f_vtable := hi.vtable; have f_conn_iff := hi.conn_iff; have f_conn_open := hi.conn_open; have f_eh := hi.eh; have f_expired := hi.expired; have f_anon := hi.anon; have f_dialout := hi.dialout; have f_count := hi.count; have f_orph_virt := hi.orph_virt; clear hi; (intros; (try simp only [hubf] at *); grind [mem_removeL, nodup_removeL, removeL_nil]))
+  case nonempty =>
+    first
+      | (have f_nonempty := hi.nonempty; have f_mem_room := hi.mem_room; clear hi; (intros; (try simp only [hubf] at *); grind [mem_removeL, nodup_removeL, removeL_nil]))
+      | (have f_fresh := hi.fresh; have f_mem_room := hi.mem_room; have f_room_mem := hi.room_mem; have f_nonempty := hi.nonempty; have f_nodup := hi.nodup; have f_roomL_iff := hi.roomL_iff; have f_roomL_nodup := hi.roomL_nodup; have f_userL_iff := hi.userL_iff; have f_userL_nodup := hi.userL_nodup; have f_sessL_iff := hi.sessL_iff; have f_rs_fwd := hi.rs_fwd; have f_rs_room := hi.rs_room; have f_virt := hi.virt; have f_children := hi.children; have f_vtable := hi.vtable; have f_conn_iff := hi.conn_iff; have f_conn_open := hi.conn_open; have f_eh := hi.eh; have f_expired := hi.expired; have f_anon := hi.anon; have f_dialout := hi.dialout; have f_count := hi.count; have f_orph_virt := hi.orph_virt; clear hi; (intros; (try simp only [hubf] at *); grind [mem_removeL, nodup_removeL, removeL_nil]))
+  case nodup =>
+    first
+      | (have f_nodup := hi.nodup; clear hi; (intros; (try simp only [hubf] at *); grind [mem_removeL, nodup_removeL, removeL_nil]))
+      | (have f_fresh := hi.fresh; have f_mem_room := hi.mem_room; have f_room_mem := hi.room_mem; have f_nonempty := hi.nonempty; have f_nodup := hi.nodup; have f_roomL_iff := hi.roomL_iff; have f_roomL_nodup := hi.roomL_nodup; have f_userL_iff := hi.userL_iff; have f_userL_nodup := hi.userL_nodup; have f_sessL_iff := hi.sessL_iff; have f_rs_fwd := hi.rs_fwd; have f_rs_room := hi.rs_room; have f_virt := hi.virt; have f_children := hi.children; have f_vtable := hi.vtable; have f_conn_iff := hi.conn_iff; have f_conn_open := hi.conn_open; have f_eh := hi.eh; have f_expired := hi.expired; have f_anon := hi.anon; have f_dialout := hi.dialout; have f_count := hi.count; have f_orph_virt := hi.orph_virt; clear hi; (intros; (try simp only [hubf] at *); grind [mem_removeL, nodup_removeL, removeL_nil]))
+  case roomL_iff =>
+    first
+      | (have f_roomL_iff := hi.roomL_iff; have f_fresh := hi.fresh; have f_room_mem := hi.room_mem; have f_mem_room := hi.mem_room; clear hi; (intros; (try simp only [hubf] at *); grind [mem_removeL, nodup_removeL, removeL_nil]))
+      | (have f_fresh := hi.fresh; have f_mem_room := hi.mem_room; have f_room_mem := hi.room_mem; have f_nonempty := hi.nonempty; have f_nodup := hi.nodup; have f_roomL_iff := hi.roomL_iff; have f_roomL_nodup := hi.roomL_nodup; have f_userL_iff := hi.userL_iff; have f_userL_nodup := hi.userL_nodup; have f_sessL_iff := hi.sessL_iff; have f_rs_fwd := hi.rs_fwd; have f_rs_room := hi.rs_room; have f_virt := hi.virt; have f_children := hi.children; have f_vtable := hi.vtable; have f_conn_iff := hi.conn_iff; have f_conn_open := hi.conn_open; have f_eh := hi.eh; have f_expired := hi.expired; have f_anon := hi.anon; have f_dialout := hi.dialout; have f_count := hi.count; have f_orph_virt := hi.orph_virt; clear hi; (intros; (try simp only [hubf] at *); grind [mem_removeL, nodup_removeL, removeL_nil]))
+  case roomL_nodup =>
+    first
+      | (have f_roomL_nodup := hi.roomL_nodup; have f_roomL_iff := hi.roomL_iff; clear hi; (intros; (try simp only [hubf] at *); grind [mem_removeL, nodup_removeL, removeL_nil]))
+      | (have f_fresh := hi.fresh; have f_mem_room := hi.mem_room; have f_room_mem := hi.room_mem; have f_nonempty := hi.nonempty; have f_nodup := hi.nodup; have f_roomL_iff := hi.roomL_iff; have f_roomL_nodup := hi.roomL_nodup; have f_userL_iff := hi.userL_iff; have f_userL_nodup := hi.userL_nodup; have f_sessL_iff := hi.sessL_iff; have f_rs_fwd := hi.rs_fwd; have f_rs_room := hi.rs_room; have f_virt := hi.virt; have f_children := hi.children; have f_vtable := hi.vtable; have f_conn_iff := hi.conn_iff; have f_conn_open := hi.conn_open; have f_eh := hi.eh; have f_expired := hi.expired; have f_anon := hi.anon; have f_dialout := hi.dialout; have f_count := hi.count; have f_orph_virt := hi.orph_virt; clear hi; (intros; (try simp only [hubf] at *); grind [mem_removeL, nodup_removeL, removeL_nil]))
+  case userL_iff =>
+    first
+      | (have f_userL_iff := hi.userL_iff; have f_fresh := hi.fresh; clear hi; (intros; (try simp only [hubf] at *); grind [mem_removeL, nodup_removeL, removeL_nil]))
+      | (have f_fresh := hi.fresh; have f_mem_room := hi.mem_room; have f_room_mem := hi.room_mem; have f_nonempty := hi.nonempty; have f_nodup := hi.nodup; have f_roomL_iff := hi.roomL_iff; have f_roomL_nodup := hi.roomL_nodup; have f_userL_iff := hi.userL_iff; have f_userL_nodup := hi.userL_nodup; have f_sessL_iff := hi.sessL_iff; have f_rs_fwd := hi.rs_fwd; have f_rs_room := hi.rs_room; have f_virt := hi.virt; have f_children := hi.children; have f_vtable := hi.vtable; have f_conn_iff := hi.conn_iff; have f_conn_open := hi.conn_open; have f_eh := hi.eh; have f_expired := hi.expired; have f_anon := hi.anon; have f_dialout := hi.dialout; have f_count := hi.count; have f_orph_virt := hi.orph_virt; clear hi; (intros; (try simp only [hubf] at *); grind [mem_removeL, nodup_removeL, removeL_nil]))
+  case userL_nodup =>
+    first
+      | (have f_userL_nodup := hi.userL_nodup; have f_userL_iff := hi.userL_iff; clear hi; (intros; (try simp only [hubf] at *); grind [mem_removeL, nodup_removeL, removeL_nil]))
+      | (have f_fresh := hi.fresh; have f_mem_room := hi.mem_room; have f_room_mem := hi.room_mem; have f_nonempty := hi.nonempty; have f_nodup := hi.nodup; have f_roomL_iff := hi.roomL_iff; have f_roomL_nodup := hi.roomL_nodup; have f_userL_iff := hi.userL_iff; have f_userL_nodup := hi.userL_nodup; have f_sessL_iff := hi.sessL_iff; have f_rs_fwd := hi.rs_fwd; have f_rs_room := hi.rs_room; have f_virt := hi.virt; have f_children := hi.children; have f_vtable := hi.vtable; have f_conn_iff := hi.conn_iff; have f_conn_open := hi.conn_open; have f_eh := hi.eh; have f_expired := hi.expired; have f_anon := hi.anon; have f_dialout := hi.dialout; have f_count := hi.count; have f_orph_virt := hi.orph_virt; clear hi; (intros; (try simp only [hubf] at *); grind [mem_removeL, nodup_removeL, removeL_nil]))
+  case sessL_iff =>
+    first
+      | (have f_sessL_iff := hi.sessL_iff; have f_fresh := hi.fresh; clear hi; (intros; (try simp only [hubf] at *); grind [mem_removeL, nodup_removeL, removeL_nil]))
+      | (have f_fresh := hi.fresh; have f_mem_room := hi.mem_room; have f_room_mem := hi.room_mem; have f_nonempty := hi.nonempty; have f_nodup := hi.nodup; have f_roomL_iff := hi.roomL_iff; have f_roomL_nodup := hi.roomL_nodup; have f_userL_iff := hi.userL_iff; have f_userL_nodup := hi.userL_nodup; have f_sessL_iff := hi.sessL_iff; have f_rs_fwd := hi.rs_fwd; have f_rs_room := hi.rs_room; have f_virt := hi.virt; have f_children := hi.children; have f_vtable := hi.vtable; have f_conn_iff := hi.conn_iff; have f_conn_open := hi.conn_open; have f_eh := hi.eh; have f_expired := hi.expired; have f_anon := hi.anon; have f_dialout := hi.dialout; have f_count := hi.count; have f_orph_virt := hi.orph_virt; clear hi; (intros; (try simp only [hubf] at *); grind [mem_removeL, nodup_removeL, removeL_nil]))
+  case rs_fwd =>
+    first
+      | (have f_rs_fwd := hi.rs_fwd; have f_rs_room := hi.rs_room; have f_fresh := hi.fresh; clear hi; (intros; (try simp only [hubf] at *); grind [mem_removeL, nodup_removeL, removeL_nil]))
+      | (have f_fresh := hi.fresh; have f_mem_room := hi.mem_room; have f_room_mem := hi.room_mem; have f_nonempty := hi.nonempty; have f_nodup := hi.nodup; have f_roomL_iff := hi.roomL_iff; have f_roomL_nodup := hi.roomL_nodup; have f_userL_iff := hi.userL_iff; have f_userL_nodup := hi.userL_nodup; have f_sessL_iff := hi.sessL_iff; have f_rs_fwd := hi.rs_fwd; have f_rs_room := hi.rs_room; have f_virt := hi.virt; have f_children := hi.children; have f_vtable := hi.vtable; have f_conn_iff := hi.conn_iff; have f_conn_open := hi.conn_open; have f_eh := hi.eh; have f_expired := hi.expired; have f_anon := hi.anon; have f_dialout := hi.dialout; have f_count := hi.count; have f_orph_virt := hi.orph_virt; clear hi; (intros; (try simp only [hubf] at *); grind [mem_removeL, nodup_removeL, removeL_nil]))
+  case rs_room =>
+    first
+      | (have f_rs_room := hi.rs_room; have f_rs_fwd := hi.rs_fwd; have f_fresh := hi.fresh; have f_room_mem := hi.room_mem; clear hi; (intros; (try simp only [hubf] at *); grind [mem_removeL, nodup_removeL, removeL_nil]))
+      | (have f_fresh := hi.fresh; have f_mem_room := hi.mem_room; have f_room_mem := hi.room_mem; have f_nonempty := hi.nonempty; have f_nodup := hi.nodup; have f_roomL_iff := hi.roomL_iff; have f_roomL_nodup := hi.roomL_nodup; have f_userL_iff := hi.userL_iff; have f_userL_nodup := hi.userL_nodup; have f_sessL_iff := hi.sessL_iff; have f_rs_fwd := hi.rs_fwd; have f_rs_room := hi.rs_room; have f_virt := hi.virt; have f_children := hi.children; have f_vtable := hi.vtable; have f_conn_iff := hi.conn_iff; have f_conn_open := hi.conn_open; have f_eh := hi.eh; have f_expired := hi.expired; have f_anon := hi.anon; have f_dialout := hi.dialout; have f_count := hi.count; have f_orph_virt := hi.orph_virt; clear hi; (intros; (try simp only [hubf] at *); grind [mem_removeL, nodup_removeL, removeL_nil]))
+  case virt =>
+    first
+      | (have f_virt := hi.virt; have f_children := hi.children; have f_fresh := hi.fresh; clear hi; (intros; (try simp only [hubf] at *); grind [mem_removeL, nodup_removeL, removeL_nil]))
+      | (have f_fresh := hi.fresh; have f_mem_room := hi.mem_room; have f_room_mem := hi.room_mem; have f_nonempty := hi.nonempty; have f_nodup := hi.nodup; have f_roomL_iff := hi.roomL_iff; have f_roomL_nodup := hi.roomL_nodup; have f_userL_iff := hi.userL_iff; have f_userL_nodup := hi.userL_nodup; have f_sessL_iff := hi.sessL_iff; have f_rs_fwd := hi.rs_fwd; have f_rs_room := hi.rs_room; have f_virt := hi.virt; have f_children := hi.children; have f_vtable := hi.vtable; have f_conn_iff := hi.conn_iff; have f_conn_open := hi.conn_open; have f_eh := hi.eh; have f_expired := hi.expired; have f_anon := hi.anon; have f_dialout := hi.dialout; have f_count := hi.count; have f_orph_virt := hi.orph_virt; clear hi; (intros; (try simp only [hubf] at *); grind [mem_removeL, nodup_removeL, removeL_nil]))
+  case children =>
+    first
+      | (have f_children := hi.children; have f_virt := hi.virt; have f_fresh := hi.fresh; clear hi; (intros; (try simp only [hubf] at *); grind [mem_removeL, nodup_removeL, removeL_nil]))
+      | (have f_fresh := hi.fresh; have f_mem_room := hi.mem_room; have f_room_mem := hi.room_mem; have f_nonempty := hi.nonempty; have f_nodup := hi.nodup; have f_roomL_iff := hi.roomL_iff; have f_roomL_nodup := hi.roomL_nodup; have f_userL_iff := hi.userL_iff; have f_userL_nodup := hi.userL_nodup; have f_sessL_iff := hi.sessL_iff; have f_rs_fwd := hi.rs_fwd; have f_rs_room := hi.rs_room; have f_virt := hi.virt; have f_children := hi.children; have f_vtable := hi.vtable; have f_conn_iff := hi.conn_iff; have f_conn_open := hi.conn_open; have f_eh := hi.eh; have f_expired := hi.expired; have f_anon := hi.anon; have f_dialout := hi.dialout; have f_count := hi.count; have f_orph_virt := hi.orph_virt; clear hi; (intros; (try simp only [hubf] at *); grind [mem_removeL, nodup_removeL, removeL_nil]))
+  case vtable =>
+    first
+      | (have f_vtable := hi.vtable; have f_virt := hi.virt; have f_fresh := hi.fresh; clear hi; (intros; (try simp only [hubf] at *); grind [mem_removeL, nodup_removeL, removeL_nil]))
+      | (have f_fresh := hi.fresh; have f_mem_room := hi.mem_room; have f_room_mem := hi.room_mem; have f_nonempty := hi.nonempty; have f_nodup := hi.nodup; have f_roomL_iff := hi.roomL_iff; have f_roomL_nodup := hi.roomL_nodup; have f_userL_iff := hi.userL_iff; have f_userL_nodup := hi.userL_nodup; have f_sessL_iff := hi.sessL_iff; have f_rs_fwd := hi.rs_fwd; have f_rs_room := hi.rs_room; have f_virt := hi.virt; have f_children := hi.children; have f_vtable := hi.vtable; have f_conn_iff := hi.conn_iff; have f_conn_open := hi.conn_open; have f_eh := hi.eh; have f_expired := hi.expired; have f_anon := hi.anon; have f_dialout := hi.dialout; have f_count := hi.count; have f_orph_virt := hi.orph_virt; clear hi; (intros; (try simp only [hubf] at *); grind [mem_removeL, nodup_removeL, removeL_nil]))
+  case conn_iff =>
+    first
+      | (have f_conn_iff := hi.conn_iff; have f_fresh := hi.fresh; have f_virt := hi.virt; clear hi; (intros; (try simp only [hubf] at *); grind [mem_removeL, nodup_removeL, removeL_nil]))
+      | (have f_fresh := hi.fresh; have f_mem_room := hi.mem_room; have f_room_mem := hi.room_mem; have f_nonempty := hi.nonempty; have f_nodup := hi.nodup; have f_roomL_iff := hi.roomL_iff; have f_roomL_nodup := hi.roomL_nodup; have f_userL_iff := hi.userL_iff; have f_userL_nodup := hi.userL_nodup; have f_sessL_iff := hi.sessL_iff; have f_rs_fwd := hi.rs_fwd; have f_rs_room := hi.rs_room; have f_virt := hi.virt; have f_children := hi.children; have f_vtable := hi.vtable; have f_conn_iff := hi.conn_iff; have f_conn_open := hi.conn_open; have f_eh := hi.eh; have f_expired := hi.expired; have f_anon := hi.anon; have f_dialout := hi.dialout; have f_count := hi.count; have f_orph_virt := hi.orph_virt; clear hi; (intros; (try simp only [hubf] at *); grind [mem_removeL, nodup_removeL, removeL_nil]))
+  case conn_open =>
+    first
+      | (have f_conn_open := hi.conn_open; have f_conn_iff := hi.conn_iff; clear hi; (intros; (try simp only [hubf] at *); grind [mem_removeL, nodup_removeL, removeL_nil]))
+      | (have f_fresh := hi.fresh; have f_mem_room := hi.mem_room; have f_room_mem := hi.room_mem; have f_nonempty := hi.nonempty; have f_nodup := hi.nodup; have f_roomL_iff := hi.roomL_iff; have f_roomL_nodup := hi.roomL_nodup; have f_userL_iff := hi.userL_iff; have f_userL_nodup := hi.userL_nodup; have f_sessL_iff := hi.sessL_iff; have f_rs_fwd := hi.rs_fwd; have f_rs_room := hi.rs_room; have f_virt := hi.virt; have f_children := hi.children; have f_vtable := hi.vtable; have f_conn_iff := hi.conn_iff; have f_conn_open := hi.conn_open; have f_eh := hi.eh; have f_expired := hi.expired; have f_anon := hi.anon; have f_dialout := hi.dialout; have f_count := hi.count; have f_orph_virt := hi.orph_virt; clear hi; (intros; (try simp only [hubf] at *); grind [mem_removeL, nodup_removeL, removeL_nil]))
+  case eh =>
+    first
+      | (have f_eh := hi.eh; have f_conn_iff := hi.conn_iff; have f_conn_open := hi.conn_open; clear hi; (intros; (try simp only [hubf] at *); grind [mem_removeL, nodup_removeL, removeL_nil]))
+      | (have f_fresh := hi.fresh; have f_mem_room := hi.mem_room; have f_room_mem := hi.room_mem; have f_nonempty := hi.nonempty; have f_nodup := hi.nodup; have f_roomL_iff := hi.roomL_iff; have f_roomL_nodup := hi.roomL_nodup; have f_userL_iff := hi.userL_iff; have f_userL_nodup := hi.userL_nodup; have f_sessL_iff := hi.sessL_iff; have f_rs_fwd := hi.rs_fwd; have f_rs_room := hi.rs_room; have f_virt := hi.virt; have f_children := hi.children; have f_vtable := hi.vtable; have f_conn_iff := hi.conn_iff; have f_conn_open := hi.conn_open; have f_eh := hi.eh; have f_expired := hi.expired; have f_anon := hi.anon; have f_dialout := hi.dialout; have f_count := hi.count; have f_orph_virt := hi.orph_virt; clear hi; (intros; (try simp only [hubf] at *); grind [mem_removeL, nodup_removeL, removeL_nil]))
+  case expired =>
+    first
+      | (have f_expired := hi.expired; have f_fresh := hi.fresh; clear hi; (intros; (try simp only [hubf] at *); grind [mem_removeL, nodup_removeL, removeL_nil]))
+      | (have f_fresh := hi.fresh; have f_mem_room := hi.mem_room; have f_room_mem := hi.room_mem; have f_nonempty := hi.nonempty; have f_nodup := hi.nodup; have f_roomL_iff := hi.roomL_iff; have f_roomL_nodup := hi.roomL_nodup; have f_userL_iff := hi.userL_iff; have f_userL_nodup := hi.userL_nodup; have f_sessL_iff := hi.sessL_iff; have f_rs_fwd := hi.rs_fwd; have f_rs_room := hi.rs_room; have f_virt := hi.virt; have f_children := hi.children; have f_vtable := hi.vtable; have f_conn_iff := hi.conn_iff; have f_conn_open := hi.conn_open; have f_eh := hi.eh; have f_expired := hi.expired; have f_anon := hi.anon; have f_dialout := hi.dialout; have f_count := hi.count; have f_orph_virt := hi.orph_virt; clear hi; (intros; (try simp only [hubf] at *); grind [mem_removeL, nodup_removeL, removeL_nil]))
+  case anon =>
+    first
+      | (have f_anon := hi.anon; have f_fresh := hi.fresh; clear hi; (intros; (try simp only [hubf] at *); grind [mem_removeL, nodup_removeL, removeL_nil]))
+      | (have f_fresh := hi.fresh; have f_mem_room := hi.mem_room; have f_room_mem := hi.room_mem; have f_nonempty := hi.nonempty; have f_nodup := hi.nodup; have f_roomL_iff := hi.roomL_iff; have f_roomL_nodup := hi.roomL_nodup; have f_userL_iff := hi.userL_iff; have f_userL_nodup := hi.userL_nodup; have f_sessL_iff := hi.sessL_iff; have f_rs_fwd := hi.rs_fwd; have f_rs_room := hi.rs_room; have f_virt := hi.virt; have f_children := hi.children; have f_vtable := hi.vtable; have f_conn_iff := hi.conn_iff; have f_conn_open := hi.conn_open; have f_eh := hi.eh; have f_expired := hi.expired; have f_anon := hi.anon; have f_dialout := hi.dialout; have f_count := hi.count; have f_orph_virt := hi.orph_virt; clear hi; (intros; (try simp only [hubf] at *); grind [mem_removeL, nodup_removeL, removeL_nil]))
+  case dialout =>
+    first
+      | (have f_dialout := hi.dialout; have f_fresh := hi.fresh; clear hi; (intros; (try simp only [hubf] at *); grind [mem_removeL, nodup_removeL, removeL_nil]))
+      | (have f_fresh := hi.fresh; have f_mem_room := hi.mem_room; have f_room_mem := hi.room_mem; have f_nonempty := hi.nonempty; have f_nodup := hi.nodup; have f_roomL_iff := hi.roomL_iff; have f_roomL_nodup := hi.roomL_nodup; have f_userL_iff := hi.userL_iff; have f_userL_nodup := hi.userL_nodup; have f_sessL_iff := hi.sessL_iff; have f_rs_fwd := hi.rs_fwd; have f_rs_room := hi.rs_room; have f_virt := hi.virt; have f_children := hi.children; have f_vtable := hi.vtable; have f_conn_iff := hi.conn_iff; have f_conn_open := hi.conn_open; have f_eh := hi.eh; have f_expired := hi.expired; have f_anon := hi.anon; have f_dialout := hi.dialout; have f_count := hi.count; have f_orph_virt := hi.orph_virt; clear hi; (intros; (try simp only [hubf] at *); grind [mem_removeL, nodup_removeL, removeL_nil]))
+  case count =>
+    first
+      | (have f_count := hi.count; have f_fresh := hi.fresh; clear hi; (intros; (try simp only [hubf] at *); grind [mem_removeL, nodup_removeL, removeL_nil]))
+      | (have f_fresh := hi.fresh; have f_mem_room := hi.mem_room; have f_room_mem := hi.room_mem; have f_nonempty := hi.nonempty; have f_nodup := hi.nodup; have f_roomL_iff := hi.roomL_iff; have f_roomL_nodup := hi.roomL_nodup; have f_userL_iff := hi.userL_iff; have f_userL_nodup := hi.userL_nodup; have f_sessL_iff := hi.sessL_iff; have f_rs_fwd := hi.rs_fwd; have f_rs_room := hi.rs_room; have f_virt := hi.virt; have f_children := hi.children; have f_vtable := hi.vtable; have f_conn_iff := hi.conn_iff; have f_conn_open := hi.conn_open; have f_eh := hi.eh; have f_expired := hi.expired; have f_anon := hi.anon; have f_dialout := hi.dialout; have f_count := hi.count; have f_orph_virt := hi.orph_virt; clear hi; (intros; (try simp only [hubf] at *); grind [mem_removeL, nodup_removeL, removeL_nil]))
+  case orph_virt =>
+    first
+      | (have f_orph_virt := hi.orph_virt; have f_fresh := hi.fresh; have f_children := hi.children; have f_virt := hi.virt; clear hi; (intros; (try simp only [hubf] at *); grind [mem_removeL, nodup_removeL, removeL_nil]))
+      | (have f_fresh := hi.fresh; have f_mem_room := hi.mem_room; have f_room_mem := hi.room_mem; have f_nonempty := hi.nonempty; have f_nodup := hi.nodup; have f_roomL_iff := hi.roomL_iff; have f_roomL_nodup := hi.roomL_nodup; have f_userL_iff := hi.userL_iff; have f_userL_nodup := hi.userL_nodup; have f_sessL_iff := hi.sessL_iff; have f_rs_fwd := hi.rs_fwd; have f_rs_room := hi.rs_room; have f_virt := hi.virt; have f_children := hi.children; have f_vtable := hi.vtable; have f_conn_iff := hi.conn_iff; have f_conn_open := hi.conn_open; have f_eh := hi.eh; have f_expired := hi.expired; have f_anon := hi.anon; have f_dialout := hi.dialout; have f_count := hi.count; have f_orph_virt := hi.orph_virt; clear hi; (intros; (try simp only [hubf] at *); grind [mem_removeL, nodup_removeL, removeL_nil]))
+
+/-- What `leaveRoom` does to a session whose room is gone from the table. -/
+def leaveGone (h : Hub) (s : Nat) (x : Sess) (r : String) : Hub :=
+  setSess (rsDelete (if x.kind = .virtual then h else setRoomL h x.backend r (removeL (h.roomL x.backend r) s)) s) s
+    (some { x with room := none, roomSess := "", seenJoin := [] })
+
+theorem leaveRoom_gone (a : Acc) (s : Nat) {x : Sess} {r : String} (hx : a.h.sess s = some x) (hr : x.room = some r)
+    (hrm : a.h.rooms x.backend r = none) : (leaveRoom a s).1.h = leaveGone a.h s x r := by
+  unfold leaveRoom leaveGone roomRemoveSession
+  simp only [hx, hr]
+  have hrooms : (setSess (rsDelete (if x.kind = .virtual then a.h else
+      setRoomL a.h x.backend r (removeL (a.h.roomL x.backend r) s)) s) s
+      (some { x with room := none, roomSess := "", seenJoin := [] })).rooms x.backend r = none := by
+    simp only [hubf]; split <;> simp [hrm, hubf]
+  simp only [hrooms]
+
+set_option maxHeartbeats 4000000 in
+theorem leaveGone_inv {h : Hub} {b : Nat} {r : String} {ms : List Nat} (hi : InvG (Rdel b r ms) [] h)
+    {s : Nat} {x : Sess} (hx : h.sess s = some x) (hb : x.backend = b) (hr : x.room = some r)
+    (hgone : h.rooms b r = none) : InvG (Rdel b r (removeL ms s)) [] (leaveGone h s x r) := by
+  unfold leaveGone Rdel at *
+  constructor
+  case fresh =>
+    by_cases hk : x.kind = .virtual <;> simp only [hk, if_true, if_false]
+    all_goals first
+      | (have f_fresh := hi.fresh; clear hi; (intros; (try simp only [hubf] at *); grind [mem_removeL, nodup_removeL, removeL_nil]))
+      | (have f_fresh := hi.fresh; have f_mem_room := hi.mem_room; have f_room_mem := hi.room_mem; have f_nonempty := hi.nonempty; have f_nodup := hi.nodup; have f_roomL_iff := hi.roomL_iff; have f_roomL_nodup := hi.roomL_nodup; have f_userL_iff := hi.userL_iff; have f_userL_nodup := hi.userL_nodup; have f_sessL_iff := hi.sessL_iff; have f_rs_fwd := hi.rs_fwd; have f_rs_room := hi.rs_room; have f_virt := hi.virt; have f_children := hi.children; have f_vtable := hi.vtable; have f_conn_iff := hi.conn_iff; have f_conn_open := hi.conn_open; have f_eh := hi.eh; have f_expired := hi.expired; have f_anon := hi.anon; have f_dialout := hi.dialout; have f_count := hi.count; have f_orph_virt := hi.orph_virt; clear hi; (intros; (try simp only [hubf] at *); grind [mem_removeL, nodup_removeL, removeL_nil]))
+  case mem_room =>
+    by_cases hk : x.kind = .virtual <;> simp only [hk, if_true, if_false]
+    all_goals first
+      | (have f_mem_room := hi.mem_room; have f_fresh := hi.fresh; clear hi; (intros; (try simp only [hubf] at *); grind [mem_removeL, nodup_removeL, removeL_nil]))
+      | (have f_fresh := hi.fresh; have f_mem_room := hi.mem_room; have f_room_mem := hi.room_mem; have f_nonempty := hi.nonempty; have f_nodup := hi.nodup; have f_roomL_iff := hi.roomL_iff; have f_roomL_nodup := hi.roomL_nodup; have f_userL_iff := hi.userL_iff; have f_userL_nodup := hi.userL_nodup; have f_sessL_iff := hi.sessL_iff; have f_rs_fwd := hi.rs_fwd; have f_rs_room := hi.rs_room; have f_virt := hi.virt; have f_children := hi.children; have f_vtable := hi.vtable; have f_conn_iff := hi.conn_iff; have f_conn_open := hi.conn_open; have f_eh := hi.eh; have f_expired := hi.expired; have f_anon := hi.anon; have f_dialout := hi.dialout; have f_count := hi.count; have f_orph_virt := hi.orph_virt; clear hi; (intros; (try simp only [hubf] at *); grind [mem_removeL, nodup_removeL, removeL_nil]))
+  case room_mem =>
+    by_cases hk : x.kind = .virtual <;> simp only [hk, if_true, if_false]
+    all_goals first
+      | (have f_room_mem := hi.room_mem; have f_mem_room := hi.mem_room; have f_fresh := hi.fresh; clear hi; (intros; (try simp only [hubf] at *); grind [mem_removeL, nodup_removeL, removeL_nil]))
+      | (have f_fresh := hi.fresh; have f_mem_room := hi.mem_room; have f_room_mem := hi.room_mem; have f_nonempty := hi.nonempty; have f_nodup := hi.nodup; have f_roomL_iff := hi.roomL_iff; have f_roomL_nodup := hi.roomL_nodup; have f_userL_iff := hi.userL_iff; have f_userL_nodup := hi.userL_nodup; have f_sessL_iff := hi.sessL_iff; have f_rs_fwd := hi.rs_fwd; have f_rs_room := hi.rs_room; have f_virt := hi.virt; have f_children := hi.children; have f_vtable := hi.vtable; have f_conn_iff := hi.conn_iff; have f_conn_open := hi.conn_open; have f_eh := hi.eh; have f_expired := hi.expired; have f_anon := hi.anon; have f_dialout := hi.dialout; have f_count := hi.count; have f_orph_virt := hi.orph_virt; clear hi; (intros; (try simp only [hubf] at *); grind [mem_removeL, nodup_removeL, removeL_nil]))
+  case nonempty =>
+    by_cases hk : x.kind = .virtual <;> simp only [hk, if_true, if_false]
+    all_goals first
+      | (have f_nonempty := hi.nonempty; have f_mem_room := hi.mem_room; clear hi; (intros; (try simp only [hubf] at *); grind [mem_removeL, nodup_removeL, removeL_nil]))
+      | (have f_fresh := hi.fresh; have f_mem_room := hi.mem_room; have f_room_mem := hi.room_mem; have f_nonempty := hi.nonempty; have f_nodup := hi.nodup; have f_roomL_iff := hi.roomL_iff; have f_roomL_nodup := hi.roomL_nodup; have f_userL_iff := hi.userL_iff; have f_userL_nodup := hi.userL_nodup; have f_sessL_iff := hi.sessL_iff; have f_rs_fwd := hi.rs_fwd; have f_rs_room := hi.rs_room; have f_virt := hi.virt; have f_children := hi.children; have f_vtable := hi.vtable; have f_conn_iff := hi.conn_iff; have f_conn_open := hi.conn_open; have f_eh := hi.eh; have f_expired := hi.expired; have f_anon := hi.anon; have f_dialout := hi.dialout; have f_count := hi.count; have f_orph_virt := hi.orph_virt; clear hi; (intros; (try simp only [hubf] at *); grind [mem_removeL, nodup_removeL, removeL_nil]))
+  case nodup =>
+    by_cases hk : x.kind = .virtual <;> simp only [hk, if_true, if_false]
+    all_goals first
+      | (have f_nodup := hi.nodup; clear hi; (intros; (try simp only [hubf] at *); grind [mem_removeL, nodup_removeL, removeL_nil]))
+      | (have f_fresh := hi.fresh; have f_mem_room := hi.mem_room; have f_room_mem := hi.room_mem; have f_nonempty := hi.nonempty; have f_nodup := hi.nodup; have f_roomL_iff := hi.roomL_iff; have f_roomL_nodup := hi.roomL_nodup; have f_userL_iff := hi.userL_iff; have f_userL_nodup := hi.userL_nodup; have f_sessL_iff := hi.sessL_iff; have f_rs_fwd := hi.rs_fwd; have f_rs_room := hi.rs_room; have f_virt := hi.virt; have f_children := hi.children; have f_vtable := hi.vtable; have f_conn_iff := hi.conn_iff; have f_conn_open := hi.conn_open; have f_eh := hi.eh; have f_expired := hi.expired; have f_anon := hi.anon; have f_dialout := hi.dialout; have f_count := hi.count; have f_orph_virt := hi.orph_virt; clear hi; (intros; (try simp only [hubf] at *); grind [mem_removeL, nodup_removeL, removeL_nil]))
+  case roomL_iff =>
+    by_cases hk : x.kind = .virtual <;> simp only [hk, if_true, if_false]
+    all_goals first
+      | (have f_roomL_iff := hi.roomL_iff; have f_fresh := hi.fresh; have f_room_mem := hi.room_mem; have f_mem_room := hi.mem_room; clear hi; (intros; (try simp only [hubf] at *); grind [mem_removeL, nodup_removeL, removeL_nil]))
+      | (have f_fresh := hi.fresh; have f_mem_room := hi.mem_room; have f_room_mem := hi.room_mem; have f_nonempty := hi.nonempty; have f_nodup := hi.nodup; have f_roomL_iff := hi.roomL_iff; have f_roomL_nodup := hi.roomL_nodup; have f_userL_iff := hi.userL_iff; have f_userL_nodup := hi.userL_nodup; have f_sessL_iff := hi.sessL_iff; have f_rs_fwd := hi.rs_fwd; have f_rs_room := hi.rs_room; have f_virt := hi.virt; have f_children := hi.children; have f_vtable := hi.vtable; have f_conn_iff := hi.conn_iff; have f_conn_open := hi.conn_open; have f_eh := hi.eh; have f_expired := hi.expired; have f_anon := hi.anon; have f_dialout := hi.dialout; have f_count := hi.count; have f_orph_virt := hi.orph_virt; clear hi; (intros; (try simp only [hubf] at *); grind [mem_removeL, nodup_removeL, removeL_nil]))
+  case roomL_nodup =>
+    by_cases hk : x.kind = .virtual <;> simp only [hk, if_true, if_false]
+    all_goals first
+      | (have f_roomL_nodup := hi.roomL_nodup; have f_roomL_iff := hi.roomL_iff; clear hi; (intros; (try simp only [hubf] at *); grind [mem_removeL, nodup_removeL, removeL_nil]))
+      | (have f_fresh := hi.fresh; have f_mem_room := hi.mem_room; have f_room_mem := hi.room_mem; have f_nonempty := hi.nonempty; have f_nodup := hi.nodup; have f_roomL_iff := hi.roomL_iff; have f_roomL_nodup := hi.roomL_nodup; have f_userL_iff := hi.userL_iff; have f_userL_nodup := hi.userL_nodup; have f_sessL_iff := hi.sessL_iff; have f_rs_fwd := hi.rs_fwd; have f_rs_room := hi.rs_room; have f_virt := hi.virt; have f_children := hi.children; have f_vtable := hi.vtable; have f_conn_iff := hi.conn_iff; have f_conn_open := hi.conn_open; have f_eh := hi.eh; have f_expired := hi.expired; have f_anon := hi.anon; have f_dialout := hi.dialout; have f_count := hi.count; have f_orph_virt := hi.orph_virt; clear hi; (intros; (try simp only [hubf] at *); grind [mem_removeL, nodup_removeL, removeL_nil]))
+  case userL_iff =>
+    by_cases hk : x.kind = .virtual <;> simp only [hk, if_true, if_false]
+    all_goals first
+      | (have f_userL_iff := hi.userL_iff; have f_fresh := hi.fresh; clear hi; (intros; (try simp only [hubf] at *); grind [mem_removeL, nodup_removeL, removeL_nil]))
+      | (have f_fresh := hi.fresh; have f_mem_room := hi.mem_room; have f_room_mem := hi.room_mem; have f_nonempty := hi.nonempty; have f_nodup := hi.nodup; have f_roomL_iff := hi.roomL_iff; have f_roomL_nodup := hi.roomL_nodup; have f_userL_iff := hi.userL_iff; have f_userL_nodup := hi.userL_nodup; have f_sessL_iff := hi.sessL_iff; have f_rs_fwd := hi.rs_fwd; have f_rs_room := hi.rs_room; have f_virt := hi.virt; have f_children := hi.children; have f_vtable := hi.vtable; have f_conn_iff := hi.conn_iff; have f_conn_open := hi.conn_open; have f_eh := hi.eh; have f_expired := hi.expired; have f_anon := hi.anon; have f_dialout := hi.dialout; have f_count := hi.count; have f_orph_virt := hi.orph_virt; clear hi; (intros; (try simp only [hubf] at *); grind [mem_removeL, nodup_removeL, removeL_nil]))
+  case userL_nodup =>
+    by_cases hk : x.kind = .virtual <;> simp only [hk, if_true, if_false]
+    all_goals first
+      | (have f_userL_nodup := hi.userL_nodup; have f_userL_iff := hi.userL_iff; clear hi; (intros; (try simp only [hubf] at *); grind [mem_removeL, nodup_removeL, removeL_nil]))
+      | (have f_fresh := hi.fresh; have f_mem_room := hi.mem_room; have f_room_mem := hi.room_mem; have f_nonempty := hi.nonempty; have f_nodup := hi.nodup; have f_roomL_iff := hi.roomL_iff; have f_roomL_nodup := hi.roomL_nodup; have f_userL_iff := hi.userL_iff; have f_userL_nodup := hi.userL_nodup; have f_sessL_iff := hi.sessL_iff; have f_rs_fwd := hi.rs_fwd; have f_rs_room := hi.rs_room; have f_virt := hi.virt; have f_children := hi.children; have f_vtable := hi.vtable; have f_conn_iff := hi.conn_iff; have f_conn_open := hi.conn_open; have f_eh := hi.eh; have f_expired := hi.expired; have f_anon := hi.anon; have f_dialout := hi.dialout; have f_count := hi.count; have f_orph_virt := hi.orph_virt; clear hi; (intros; (try simp only [hubf] at *); grind [mem_removeL, nodup_removeL, removeL_nil]))
+  case sessL_iff =>
+    by_cases hk : x.kind = .virtual <;> simp only [hk, if_true, if_false]
+    all_goals first
+      | (have f_sessL_iff := hi.sessL_iff; have f_fresh := hi.fresh; clear hi; (intros; (try simp only [hubf] at *); grind [mem_removeL, nodup_removeL, removeL_nil]))
+      | (have f_fresh := hi.fresh; have f_mem_room := hi.mem_room; have f_room_mem := hi.room_mem; have f_nonempty := hi.nonempty; have f_nodup := hi.nodup; have f_roomL_iff := hi.roomL_iff; have f_roomL_nodup := hi.roomL_nodup; have f_userL_iff := hi.userL_iff; have f_userL_nodup := hi.userL_nodup; have f_sessL_iff := hi.sessL_iff; have f_rs_fwd := hi.rs_fwd; have f_rs_room := hi.rs_room; have f_virt := hi.virt; have f_children := hi.children; have f_vtable := hi.vtable; have f_conn_iff := hi.conn_iff; have f_conn_open := hi.conn_open; have f_eh := hi.eh; have f_expired := hi.expired; have f_anon := hi.anon; have f_dialout := hi.dialout; have f_count := hi.count; have f_orph_virt := hi.orph_virt; clear hi; (intros; (try simp only [hubf] at *); grind [mem_removeL, nodup_removeL, removeL_nil]))
+  case rs_fwd =>
+    by_cases hk : x.kind = .virtual <;> simp only [hk, if_true, if_false]
+    all_goals first
+      | (have f_rs_fwd := hi.rs_fwd; have f_rs_room := hi.rs_room; have f_fresh := hi.fresh; clear hi; (intros; (try simp only [hubf] at *); grind [mem_removeL, nodup_removeL, removeL_nil]))
+      | (have f_fresh := hi.fresh; have f_mem_room := hi.mem_room; have f_room_mem := hi.room_mem; have f_nonempty := hi.nonempty; have f_nodup := hi.nodup; have f_roomL_iff := hi.roomL_iff; have f_roomL_nodup := hi.roomL_nodup; have f_userL_iff := hi.userL_iff; have f_userL_nodup := hi.userL_nodup; have f_sessL_iff := hi.sessL_iff; have f_rs_fwd := hi.rs_fwd; have f_rs_room := hi.rs_room; have f_virt := hi.virt; have f_children := hi.children; have f_vtable := hi.vtable; have f_conn_iff := hi.conn_iff; have f_conn_open := hi.conn_open; have f_eh := hi.eh; have f_expired := hi.expired; have f_anon := hi.anon; have f_dialout := hi.dialout; have f_count := hi.count; have f_orph_virt := hi.orph_virt; clear hi; (intros; (try simp only [hubf] at *); grind [mem_removeL, nodup_removeL, removeL_nil]))
+  case rs_room =>
+    by_cases hk : x.kind = .virtual <;> simp only [hk, if_true, if_false]
+    all_goals first
+      | (have f_rs_room := hi.rs_room; have f_rs_fwd := hi.rs_fwd; have f_fresh := hi.fresh; have f_room_mem := hi.room_mem; clear hi; (intros; (try simp only [hubf] at *); grind [mem_removeL, nodup_removeL, removeL_nil]))
+      | (have f_fresh := hi.fresh; have f_mem_room := hi.mem_room; have f_room_mem := hi.room_mem; have f_nonempty := hi.nonempty; have f_nodup := hi.nodup; have f_roomL_iff := hi.roomL_iff; have f_roomL_nodup := hi.roomL_nodup; have f_userL_iff := hi.userL_iff; have f_userL_nodup := hi.userL_nodup; have f_sessL_iff := hi.sessL_iff; have f_rs_fwd := hi.rs_fwd; have f_rs_room := hi.rs_room; have f_virt := hi.virt; have f_children := hi.children; have f_vtable := hi.vtable; have f_conn_iff := hi.conn_iff; have f_conn_open := hi.conn_open; have f_eh := hi.eh; have f_expired := hi.expired; have f_anon := hi.anon; have f_dialout := hi.dialout; have f_count := hi.count; have f_orph_virt := hi.orph_virt; clear hi; (intros; (try simp only [hubf] at *); grind [mem_removeL, nodup_removeL, removeL_nil]))
+  case virt =>
+    by_cases hk : x.kind = .virtual <;> simp only [hk, if_true, if_false]
+    all_goals first
+      | (have f_virt := hi.virt; have f_children := hi.children; have f_fresh := hi.fresh; clear hi; (intros; (try simp only [hubf] at *); grind [mem_removeL, nodup_removeL, removeL_nil]))
+      | (have f_fresh := hi.fresh; have f_mem_room := hi.mem_room; have f_room_mem := hi.room_mem; have f_nonempty := hi.nonempty; have f_nodup := hi.nodup; have f_roomL_iff := hi.roomL_iff; have f_roomL_nodup := hi.roomL_nodup; have f_userL_iff := hi.userL_iff; have f_userL_nodup := hi.userL_nodup; have f_sessL_iff := hi.sessL_iff; have f_rs_fwd := hi.rs_fwd; have f_rs_room := hi.rs_room; have f_virt := hi.virt; have f_children := hi.children; have f_vtable := hi.vtable; have f_conn_iff := hi.conn_iff; have f_conn_open := hi.conn_open; have f_eh := hi.eh; have f_expired := hi.expired; have f_anon := hi.anon; have f_dialout := hi.dialout; have f_count := hi.count; have f_orph_virt := hi.orph_virt; clear hi; (intros; (try simp only [hubf] at *); grind [mem_removeL, nodup_removeL, removeL_nil]))
+  case children =>
+    by_cases hk : x.kind = .virtual <;> simp only [hk, if_true, if_false]
+    all_goals first
+      | (have f_children := hi.children; have f_virt := hi.virt; have f_fresh := hi.fresh; clear hi; (intros; (try simp only [hubf] at *); grind [mem_removeL, nodup_removeL, removeL_nil]))
+      | (have f_fresh := hi.fresh; have f_mem_room := hi.mem_room; have f_room_mem := hi.room_mem; have f_nonempty := hi.nonempty; have f_nodup := hi.nodup; have f_roomL_iff := hi.roomL_iff; have f_roomL_nodup := hi.roomL_nodup; have f_userL_iff := hi.userL_iff; have f_userL_nodup := hi.userL_nodup; have f_sessL_iff := hi.sessL_iff; have f_rs_fwd := hi.rs_fwd; have f_rs_room := hi.rs_room; have f_virt := hi.virt; have f_children := hi.children; have f_vtable := hi.vtable; have f_conn_iff := hi.conn_iff; have f_conn_open := hi.conn_open; have f_eh := hi.eh; have f_expired := hi.expired; have f_anon := hi.anon; have f_dialout := hi.dialout; have f_count := hi.count; have f_orph_virt := hi.orph_virt; clear hi; (intros; (try simp only [hubf] at *); grind [mem_removeL, nodup_removeL, removeL_nil]))
+  case vtable =>
+    by_cases hk : x.kind = .virtual <;> simp only [hk, if_true, if_false]
+    all_goals first
+      | (have f_vtable := hi.vtable; have f_virt := hi.virt; have f_fresh := hi.fresh; clear hi; (intros; (try simp only [hubf] at *); grind [mem_removeL, nodup_removeL, removeL_nil]))
+      | (have f_fresh := hi.fresh; have f_mem_room := hi.mem_room; have f_room_mem := hi.room_mem; have f_nonempty := hi.nonempty; have f_nodup := hi.nodup; have f_roomL_iff := hi.roomL_iff; have f_roomL_nodup := hi.roomL_nodup; have f_userL_iff := hi.userL_iff; have f_userL_nodup := hi.userL_nodup; have f_sessL_iff := hi.sessL_iff; have f_rs_fwd := hi.rs_fwd; have f_rs_room := hi.rs_room; have f_virt := hi.virt; have f_children := hi.children; have f_vtable := hi.vtable; have f_conn_iff := hi.conn_iff; have f_conn_open := hi.conn_open; have f_eh := hi.eh; have f_expired := hi.expired; have f_anon := hi.anon; have f_dialout := hi.dialout; have f_count := hi.count; have f_orph_virt := hi.orph_virt; clear hi; (intros; (try simp only [hubf] at *); grind [mem_removeL, nodup_removeL, removeL_nil]))
+  case conn_iff =>
+    by_cases hk : x.kind = .virtual <;> simp only [hk, if_true, if_false]
+    all_goals first
+      | (have f_conn_iff := hi.conn_iff; have f_fresh := hi.fresh; have f_virt := hi.virt; clear hi; (intros; (try simp only [hubf] at *); grind [mem_removeL, nodup_removeL, removeL_nil]))
+      | (have f_fresh := hi.fresh; have f_mem_room := hi.mem_room; have f_room_mem := hi.room_mem; have f_nonempty := hi.nonempty; have f_nodup := hi.nodup; have f_roomL_iff := hi.roomL_iff; have f_roomL_nodup := hi.roomL_nodup; have f_userL_iff := hi.userL_iff; have f_userL_nodup := hi.userL_nodup; have f_sessL_iff := hi.sessL_iff; have f_rs_fwd := hi.rs_fwd; have f_rs_room := hi.rs_room; have f_virt := hi.virt; have f_children := hi.children; have f_vtable := hi.vtable; have f_conn_iff := hi.conn_iff; have f_conn_open := hi.conn_open; have f_eh := hi.eh; have f_expired := hi.expired; have f_anon := hi.anon; have f_dialout := hi.dialout; have f_count := hi.count; have f_orph_virt := hi.orph_virt; clear hi; (intros; (try simp only [hubf] at *); grind [mem_removeL, nodup_removeL, removeL_nil]))
+  case conn_open =>
+    by_cases hk : x.kind = .virtual <;> simp only [hk, if_true, if_false]
+    all_goals first
+      | (have f_conn_open := hi.conn_open; have f_conn_iff := hi.conn_iff; clear hi; (intros; (try simp only [hubf] at *); grind [mem_removeL, nodup_removeL, removeL_nil]))
+      | (have f_fresh := hi.fresh; have f_mem_room := hi.mem_room; have f_room_mem := hi.room_mem; have f_nonempty := hi.nonempty; have f_nodup := hi.nodup; have f_roomL_iff := hi.roomL_iff; have f_roomL_nodup := hi.roomL_nodup; have f_userL_iff := hi.userL_iff; have f_userL_nodup := hi.userL_nodup; have f_sessL_iff := hi.sessL_iff; have f_rs_fwd := hi.rs_fwd; have f_rs_room := hi.rs_room; have f_virt := hi.virt; have f_children := hi.children; have f_vtable := hi.vtable; have f_conn_iff := hi.conn_iff; have f_conn_open := hi.conn_open; have f_eh := hi.eh; have f_expired := hi.expired; have f_anon := hi.anon; have f_dialout := hi.dialout; have f_count := hi.count; have f_orph_virt := hi.orph_virt; clear hi; (intros; (try simp only [hubf] at *); grind [mem_removeL, nodup_removeL, removeL_nil]))
+  case eh =>
+    by_cases hk : x.kind = .virtual <;> simp only [hk, if_true, if_false]
+    all_goals first
+      | (have f_eh := hi.eh; have f_conn_iff := hi.conn_iff; have f_conn_open := hi.conn_open; clear hi; (intros; (try simp only [hubf] at *); grind [mem_removeL, nodup_removeL, removeL_nil]))
+      | (have f_fresh := hi.fresh; have f_mem_room := hi.mem_room; have f_room_mem := hi.room_mem; have f_nonempty := hi.nonempty; have f_nodup := hi.nodup; have f_roomL_iff := hi.roomL_iff; have f_roomL_nodup := hi.roomL_nodup; have f_userL_iff := hi.userL_iff; have f_userL_nodup := hi.userL_nodup; have f_sessL_iff := hi.sessL_iff; have f_rs_fwd := hi.rs_fwd; have f_rs_room := hi.rs_room; have f_virt := hi.virt; have f_children := hi.children; have f_vtable := hi.vtable; have f_conn_iff := hi.conn_iff; have f_conn_open := hi.conn_open; have f_eh := hi.eh; have f_expired := hi.expired; have f_anon := hi.anon; have f_dialout := hi.dialout; have f_count := hi.count; have f_orph_virt := hi.orph_virt; clear hi; (intros; (try simp only [hubf] at *); grind [mem_removeL, nodup_removeL, removeL_nil]))
+  case expired =>
+    by_cases hk : x.kind = .virtual <;> simp only [hk, if_true, if_false]
+    all_goals first
+      | (have f_expired := hi.expired; have f_fresh := hi.fresh; clear hi; (intros; (try simp only [hubf] at *); grind [mem_removeL, nodup_removeL, removeL_nil]))
+      | (have f_fresh := hi.fresh; have f_mem_room := hi.mem_room; have f_room_mem := hi.room_mem; have f_nonempty := hi.nonempty; have f_nodup := hi.nodup; have f_roomL_iff := hi.roomL_iff; have f_roomL_nodup := hi.roomL_nodup; have f_userL_iff := hi.userL_iff; have f_userL_nodup := hi.userL_nodup; have f_sessL_iff := hi.sessL_iff; have f_rs_fwd := hi.rs_fwd; have f_rs_room := hi.rs_room; have f_virt := hi.virt; have f_children := hi.children; have f_vtable := hi.vtable; have f_conn_iff := hi.conn_iff; have f_conn_open := hi.conn_open; have f_eh := hi.eh; have f_expired := hi.expired; have f_anon := hi.anon; have f_dialout := hi.dialout; have f_count := hi.count; have f_orph_virt := hi.orph_virt; clear hi; (intros; (try simp only [hubf] at *); grind [mem_removeL, nodup_removeL, removeL_nil]))
+  case anon =>
+    by_cases hk : x.kind = .virtual <;> simp only [hk, if_true, if_false]
+    all_goals first
+      | (have f_anon := hi.anon; have f_fresh := hi.fresh; clear hi; (intros; (try simp only [hubf] at *); grind [mem_removeL, nodup_removeL, removeL_nil]))
+      | (have f_fresh := hi.fresh; have f_mem_room := hi.mem_room; have f_room_mem := hi.room_mem; have f_nonempty := hi.nonempty; have f_nodup := hi.nodup; have f_roomL_iff := hi.roomL_iff; have f_roomL_nodup := hi.roomL_nodup; have f_userL_iff := hi.userL_iff; have f_userL_nodup := hi.userL_nodup; have f_sessL_iff := hi.sessL_iff; have f_rs_fwd := hi.rs_fwd; have f_rs_room := hi.rs_room; have f_virt := hi.virt; have f_children := hi.children; have f_vtable := hi.vtable; have f_conn_iff := hi.conn_iff; have f_conn_open := hi.conn_open; have f_eh := hi.eh; have f_expired := hi.expired; have f_anon := hi.anon; have f_dialout := hi.dialout; have f_count := hi.count; have f_orph_virt := hi.orph_virt; clear hi; (intros; (try simp only [hubf] at *); grind [mem_removeL, nodup_removeL, removeL_nil]))
+  case dialout =>
+    by_cases hk : x.kind = .virtual <;> simp only [hk, if_true, if_false]
+    all_goals first
+      | (have f_dialout := hi.dialout; have f_fresh := hi.fresh; clear hi; (intros; (try simp only [hubf] at *); grind [mem_removeL, nodup_removeL, removeL_nil]))
+      | (have f_fresh := hi.fresh; have f_mem_room := hi.mem_room; have f_room_mem := hi.room_mem; have f_nonempty := hi.nonempty; have f_nodup := hi.nodup; have f_roomL_iff := hi.roomL_iff; have f_roomL_nodup := hi.roomL_nodup; have f_userL_iff := hi.userL_iff; have f_userL_nodup := hi.userL_nodup; have f_sessL_iff := hi.sessL_iff; have f_rs_fwd := hi.rs_fwd; have f_rs_room := hi.rs_room; have f_virt := hi.virt; have f_children := hi.children; have f_vtable := hi.vtable; have f_conn_iff := hi.conn_iff; have f_conn_open := hi.conn_open; have f_eh := hi.eh; have f_expired := hi.expired; have f_anon := hi.anon; have f_dialout := hi.dialout; have f_count := hi.count; have f_orph_virt := hi.orph_virt; clear hi; (intros; (try simp only [hubf] at *); grind [mem_removeL, nodup_removeL, removeL_nil]))
+  case count =>
+    by_cases hk : x.kind = .virtual <;> simp only [hk, if_true, if_false]
+    all_goals first
+      | (have f_count := hi.count; have f_fresh := hi.fresh; clear hi; (intros; (try simp only [hubf] at *); grind [mem_removeL, nodup_removeL, removeL_nil]))
+      | (have f_fresh := hi.fresh; have f_mem_room := hi.mem_room; have f_room_mem := hi.room_mem; have f_nonempty := hi.nonempty; have f_nodup := hi.nodup; have f_roomL_iff := hi.roomL_iff; have f_roomL_nodup := hi.roomL_nodup; have f_userL_iff := hi.userL_iff; have f_userL_nodup := hi.userL_nodup; have f_sessL_iff := hi.sessL_iff; have f_rs_fwd := hi.rs_fwd; have f_rs_room := hi.rs_room; have f_virt := hi.virt; have f_children := hi.children; have f_vtable := hi.vtable; have f_conn_iff := hi.conn_iff; have f_conn_open := hi.conn_open; have f_eh := hi.eh; have f_expired := hi.expired; have f_anon := hi.anon; have f_dialout := hi.dialout; have f_count := hi.count; have f_orph_virt := hi.orph_virt; clear hi; (intros; (try simp only [hubf] at *); grind [mem_removeL, nodup_removeL, removeL_nil]))
+  case orph_virt =>
+    by_cases hk : x.kind = .virtual <;> simp only [hk, if_true, if_false]
+    all_goals first
+      | (have f_orph_virt := hi.orph_virt; have f_fresh := hi.fresh; have f_children := hi.children; have f_virt := hi.virt; clear hi; (intros; (try simp only [hubf] at *); grind [mem_removeL, nodup_removeL, removeL_nil]))
+      | (have f_fresh := hi.fresh; have f_mem_room := hi.mem_room; have f_room_mem := hi.room_mem; have f_nonempty := hi.nonempty; have f_nodup := hi.nodup; have f_roomL_iff := hi.roomL_iff; have f_roomL_nodup := hi.roomL_nodup; have f_userL_iff := hi.userL_iff; have f_userL_nodup := hi.userL_nodup; have f_sessL_iff := hi.sessL_iff; have f_rs_fwd := hi.rs_fwd; have f_rs_room := hi.rs_room; have f_virt := hi.virt; have f_children := hi.children; have f_vtable := hi.vtable; have f_conn_iff := hi.conn_iff; have f_conn_open := hi.conn_open; have f_eh := hi.eh; have f_expired := hi.expired; have f_anon := hi.anon; have f_dialout := hi.dialout; have f_count := hi.count; have f_orph_virt := hi.orph_virt; clear hi; (intros; (try simp only [hubf] at *); grind [mem_removeL, nodup_removeL, removeL_nil]))
+
+theorem InvG.weaken_room {R R' : Nat → Sess → String → Prop} {orph : List Nat} {h : Hub}
+    (hRR : ∀ s x r, h.sess s = some x → x.room = some r → R s x r → R' s x r) (hi : InvG R orph h) : InvG R' orph h := by
+  obtain ⟨f1, f2, f3, f4, f5, f6, f7, f8, f9, f10, f11, f12, f13, f14, f15, f16, f17, f18, f19, f20, f21, f22, f23⟩ := hi
+  constructor
+  all_goals first | assumption | skip
+  · intro s x r hx hr
+    rcases f3 s x r hx hr with h1 | h1
+    · exact Or.inl h1
+    · exact Or.inr (hRR s x r hx hr h1)
+
+theorem Rdel_core {b : Nat} {r : String} {ms : List Nat} :
+    ∀ (s : Nat) (x x' : Sess) (r' : String), x'.backend = x.backend → Rdel b r ms s x r' → Rdel b r ms s x' r' := by
+  intro s x x' r' e h; unfold Rdel at *; rw [e]; exact h
+
+/-- State of the loop over the former members of a deleted room: exactly the sessions still to be
+processed point to the room, which is gone from the table. -/
+structure DelState (b : Nat) (r : String) (l : List Nat) (h : Hub) : Prop where
+  inv : InvG (Rdel b r l) [] h
+  gone : h.rooms b r = none
+  pend : ∀ t x, h.sess t = some x → t ∈ l → x.room = none ∨ (x.backend = b ∧ x.room = some r)
+
+theorem deleteLeave_step (a : Acc) (s : Nat) (l : List Nat) {b : Nat} {r : String} (hnd : (s :: l).Nodup)
+    (hd : DelState b r (s :: l) a.h) : DelState b r l (deleteLeave a s).h := by
+  obtain ⟨hi, hgone, hQ⟩ := hd
+  have hsl : s ∉ l := (List.nodup_cons.mp hnd).1
+  unfold deleteLeave
+  cases hx : a.h.sess s with
+  | none =>
+    refine ⟨?_, hgone, fun t x ht hm => hQ t x ht (List.mem_cons_of_mem _ hm)⟩
+    apply InvG.weaken_room _ hi
+    intro t x r' ht _ hR
+    unfold Rdel at *
+    refine ⟨hR.1, hR.2.1, ?_⟩
+    rcases List.mem_cons.mp hR.2.2 with e | e
+    · rw [e, hx] at ht; cases ht
+    · exact e
+  | some x =>
+    simp only []
+    rcases hQ s x hx List.mem_cons_self with hr | ⟨hb, hr⟩
+    · -- no room: nothing to leave
+      have e : (leaveRoom a s).1.h = a.h := by unfold leaveRoom; simp only [hx, hr]
+      have base : DelState b r l a.h := by
+        refine ⟨?_, hgone, fun t x ht hm => hQ t x ht (List.mem_cons_of_mem _ hm)⟩
+        apply InvG.weaken_room _ hi
+        intro t y r' ht hyr hR
+        unfold Rdel at *
+        refine ⟨hR.1, hR.2.1, ?_⟩
+        rcases List.mem_cons.mp hR.2.2 with e' | e'
+        · rw [e', hx] at ht; cases ht; rw [hr] at hyr; cases hyr
+        · exact e'
+      have hc : CoreEq a.h (if (x.kind ≠ .virtual && x.conn.isSome) = true then sendTo (leaveRoom a s).1 s (.room "")
+          else (leaveRoom a s).1).h := by
+        split
+        · exact coreOf (sendTo_core _ _ _) e
+        · rw [e]; exact CoreEq.refl _
+      refine ⟨base.inv.congr hc Rdel_core, by rw [hc.rooms]; exact hgone, ?_⟩
+      intro t y ht hm
+      have := hc.sess_fields t
+      have := base.pend t
+      grind
+    · -- the room is gone: the relaxed leave
+      have hrm : a.h.rooms x.backend r = none := by rw [hb]; exact hgone
+      have e := leaveRoom_gone a s hx hr hrm
+      have hg := leaveGone_inv hi hx hb hr hgone
+      have hrem : removeL (s :: l) s = l := by
+        unfold removeL
+        simp only [List.filter_cons, ne_eq, not_true_eq_false, decide_false, Bool.false_eq_true, if_false]
+        apply List.filter_eq_self.mpr
+        intro t ht; simp; intro e'; exact hsl (e' ▸ ht)
+      rw [hrem] at hg
+      have hc : CoreEq (leaveGone a.h s x r) (if (x.kind ≠ .virtual && x.conn.isSome) = true then sendTo (leaveRoom a s).1 s (.room "")
+          else (leaveRoom a s).1).h := by
+        split
+        · exact coreOf (sendTo_core _ _ _) e
+        · rw [e]; exact CoreEq.refl _
+      have hgs : ∀ t, (leaveGone a.h s x r).sess t = if t = s then some { x with room := none, roomSess := "", seenJoin := [] } else a.h.sess t := by
+        intro t; unfold leaveGone
+        by_cases hk : x.kind = .virtual <;> simp only [hk, if_true, if_false, hubf]
+      have hgr : (leaveGone a.h s x r).rooms = a.h.rooms := by
+        unfold leaveGone
+        by_cases hk : x.kind = .virtual <;> simp only [hk, if_true, if_false, hubf]
+      refine ⟨hg.congr hc Rdel_core, by rw [hc.rooms, hgr]; exact hgone, ?_⟩
+      intro t y ht hm
+      have hts : t ≠ s := fun e' => hsl (e' ▸ hm)
+      have := hc.sess_fields t
+      have := hgs t
+      have := hQ t
+      grind
+
+theorem foldl_deleteLeave {b : Nat} {r : String} : ∀ (l : List Nat) (a : Acc), l.Nodup → DelState b r l a.h →
+    DelState b r [] (l.foldl deleteLeave a).h := by
+  intro l
+  induction l with
+  | nil => intro a _ hd; exact hd
+  | cons s l ih =>
+    intro a hnd hd
+    simp only [List.foldl_cons]
+    exact ih _ (List.nodup_cons.mp hnd).2 (deleteLeave_step a s l hnd hd)
+
+theorem apiDelete_inv (a : Acc) (b : Nat) (r : String) (hi : Inv a.h) : Inv (apiDelete a b r).h := by
+  unfold apiDelete
+  cases hrm : a.h.rooms b r with
+  | none => exact hi
+  | some rm =>
+    simp only []
+    have c1 : CoreEq a.h (rm.members.foldl notifyRoomDeleted a).h := by
+      apply foldl_core
+      intro a s; unfold notifyRoomDeleted; core_auto
+    have hi1 := hi.congr c1
+    have hrm1 : (rm.members.foldl notifyRoomDeleted a).h.rooms b r = some rm := by rw [c1.rooms]; exact hrm
+    generalize rm.members.foldl notifyRoomDeleted a = a1 at hi1 hrm1 ⊢
+    have hd : DelState b r rm.members ({ a1 with h := setRoom a1.h b r none } : Acc).h := by
+      refine ⟨deleteStart_inv hi1 hrm1, by simp [hubf], ?_⟩
+      intro t x ht hm
+      simp only [hubf] at ht
+      obtain ⟨y, hy, e1, e2⟩ := hi1.mem_room b r rm t hrm1 hm
+      rw [ht] at hy; cases hy
+      exact Or.inr ⟨e1, e2⟩
+    have fin := foldl_deleteLeave rm.members _ (hi1.nodup b r rm hrm1) hd
+    apply InvG.weaken_room _ fin.inv
+    intro s x r' _ _ hR
+    unfold Rdel at hR
+    exact absurd hR.2.2 (by simp)
+
+theorem processApi_inv (a : Acc) (b : Nat) (r : String) (req : Api) (hi : Inv a.h) : Inv (processApi a b r req).h := by
+  cases req with
+  | invite us all => exact apiInvite_inv a b r us all hi
+  | disinvite us rss all => exact apiDisinvite_inv a b r us rss all hi
+  | delete => exact apiDelete_inv a b r hi
+  | message d => exact apiMessage_inv a b r d hi
+  | incallAll ic => exact apiIncallAll_inv a b r ic hi
+  | incall ch us => exact apiIncall_inv a b r ch us hi
+  | participants ch us => exact apiParticipants_inv a b r ch us hi
+  | switchto room rss => exact apiSwitchto_inv a b r room rss hi
+
+/-! ### every operation, every history -/
+
+theorem stepAcc_inv (a : Acc) (op : Op) (hi : Inv a.h) : Inv (stepAcc a op).h := by
+  cases op with
+  | connect c => exact connect_inv a c hi
+  | hello c b kind user d i =>
+    simp only [stepAcc]
+    by_cases hk : kind = .virtual
+    · simp only [hk, if_true]; exact hi
+    · simp only [hk, if_false]; exact processHello_inv a c b kind user d i hk hi
+  | resume c s => exact processResume_inv a c s hi
+  | disconnect c => exact processDisconnect_inv a c hi
+  | bye c => exact processBye_inv a c hi
+  | housekeeping l => exact housekeeping_inv a l hi
+  | join s r rs rep =>
+    simp only [stepAcc]; split
+    · exact processRoom_inv a s r rs rep hi
+    · exact hi
+  | message s ctl rc d =>
+    simp only [stepAcc]
+    refine hi.congr ?_
+    split
+    · exact CoreEq.refl _
+    · split
+      · exact sendTo_core _ _ _
+      · exact processMessage_core _ _ _ _ _
+  | addVirtual s r vk u ic ok =>
+    simp only [stepAcc]; split
+    · exact addVirtual_inv a s r vk u ic ok hi
+    · exact hi
+  | removeVirtual s r vk =>
+    simp only [stepAcc]; split
+    · exact removeVirtual_inv a s r vk hi
+    · exact hi
+  | internalInCall s ic =>
+    simp only [stepAcc]; split
+    · exact internalInCall_inv a s ic hi
+    · exact hi
+  | api b r req => exact processApi_inv a b r req hi
+  | setLimit b l =>
+    simp only [stepAcc]
+    obtain ⟨f1, f2, f3, f4, f5, f6, f7, f8, f9, f10, f11, f12, f13, f14, f15, f16, f17, f18, f19, f20, f21, f22, f23⟩ := hi
+    constructor <;> assumption
+
+theorem step_inv (h : Hub) (op : Op) (hi : Inv h) : Inv (step h op).1 := by
+  unfold step
+  exact flushCloses_inv _ (stepAcc_inv { h := h } op hi)
+
+theorem run_inv : ∀ (ops : List Op) (h : Hub), Inv h → Inv (run h ops).1 := by
+  intro ops
+  induction ops with
+  | nil => intro h hi; exact hi
+  | cons op ops ih =>
+    intro h hi
+    simp only [run]
+    exact ih _ (step_inv h op hi)
+
+/-- Every state the hub model can reach from the empty hub satisfies the invariant. -/
+theorem reachable_inv (ops : List Op) : Inv (run {} ops).1 := run_inv ops _ Inv.init
+
 end SigModel.Hub
